@@ -419,689 +419,4 @@ theorem hill_GPE_PIPE_same_response (hc : c * c = 2) (hF hG hH hL hM hN x11 x22 
   simp only [gen_simp, quad4, quad6]
   ring
 
-/-! ## orthotropic stiffness tensors -/
-
-/-- 3D, documented meaning: the normal block is the inverse of the compliance matrix
-    S = [[1/E1, -ν12/E1, -ν13/E1], [-ν12/E1, 1/E2, -ν23/E2], [-ν13/E1, -ν23/E2, 1/E3]]  (C·S = 1, nine equations),
-    the shear block is diag(2 G12, 2 G13, 2 G23) in Mandel storage. `hd`: the determinant formed by the code is not 0. -/
-theorem stiff_TRI_inverse_of_compliance (E1 E2 E3 nu12 nu23 nu13 G12 G23 G13 : K)
-    (hd : stiff_TRI_U_DEFAULT_den3 c c3 fn E1 E2 E3 nu12 nu23 nu13 G12 G23 G13 ≠ 0) :
-    stiff_TRI_U_DEFAULT_r0_0 c c3 fn E1 E2 E3 nu12 nu23 nu13 G12 G23 G13 * (1 / E1) + stiff_TRI_U_DEFAULT_r0_1 c c3 fn E1 E2 E3 nu12 nu23 nu13 G12 G23 G13 * (-nu12 / E1) + stiff_TRI_U_DEFAULT_r0_2 c c3 fn E1 E2 E3 nu12 nu23 nu13 G12 G23 G13 * (-nu13 / E1) = 1 ∧
-    stiff_TRI_U_DEFAULT_r0_0 c c3 fn E1 E2 E3 nu12 nu23 nu13 G12 G23 G13 * (-nu12 / E1) + stiff_TRI_U_DEFAULT_r0_1 c c3 fn E1 E2 E3 nu12 nu23 nu13 G12 G23 G13 * (1 / E2) + stiff_TRI_U_DEFAULT_r0_2 c c3 fn E1 E2 E3 nu12 nu23 nu13 G12 G23 G13 * (-nu23 / E2) = 0 ∧
-    stiff_TRI_U_DEFAULT_r0_0 c c3 fn E1 E2 E3 nu12 nu23 nu13 G12 G23 G13 * (-nu13 / E1) + stiff_TRI_U_DEFAULT_r0_1 c c3 fn E1 E2 E3 nu12 nu23 nu13 G12 G23 G13 * (-nu23 / E2) + stiff_TRI_U_DEFAULT_r0_2 c c3 fn E1 E2 E3 nu12 nu23 nu13 G12 G23 G13 * (1 / E3) = 0 ∧
-    stiff_TRI_U_DEFAULT_r1_0 c c3 fn E1 E2 E3 nu12 nu23 nu13 G12 G23 G13 * (1 / E1) + stiff_TRI_U_DEFAULT_r1_1 c c3 fn E1 E2 E3 nu12 nu23 nu13 G12 G23 G13 * (-nu12 / E1) + stiff_TRI_U_DEFAULT_r1_2 c c3 fn E1 E2 E3 nu12 nu23 nu13 G12 G23 G13 * (-nu13 / E1) = 0 ∧
-    stiff_TRI_U_DEFAULT_r1_0 c c3 fn E1 E2 E3 nu12 nu23 nu13 G12 G23 G13 * (-nu12 / E1) + stiff_TRI_U_DEFAULT_r1_1 c c3 fn E1 E2 E3 nu12 nu23 nu13 G12 G23 G13 * (1 / E2) + stiff_TRI_U_DEFAULT_r1_2 c c3 fn E1 E2 E3 nu12 nu23 nu13 G12 G23 G13 * (-nu23 / E2) = 1 ∧
-    stiff_TRI_U_DEFAULT_r1_0 c c3 fn E1 E2 E3 nu12 nu23 nu13 G12 G23 G13 * (-nu13 / E1) + stiff_TRI_U_DEFAULT_r1_1 c c3 fn E1 E2 E3 nu12 nu23 nu13 G12 G23 G13 * (-nu23 / E2) + stiff_TRI_U_DEFAULT_r1_2 c c3 fn E1 E2 E3 nu12 nu23 nu13 G12 G23 G13 * (1 / E3) = 0 ∧
-    stiff_TRI_U_DEFAULT_r2_0 c c3 fn E1 E2 E3 nu12 nu23 nu13 G12 G23 G13 * (1 / E1) + stiff_TRI_U_DEFAULT_r2_1 c c3 fn E1 E2 E3 nu12 nu23 nu13 G12 G23 G13 * (-nu12 / E1) + stiff_TRI_U_DEFAULT_r2_2 c c3 fn E1 E2 E3 nu12 nu23 nu13 G12 G23 G13 * (-nu13 / E1) = 0 ∧
-    stiff_TRI_U_DEFAULT_r2_0 c c3 fn E1 E2 E3 nu12 nu23 nu13 G12 G23 G13 * (-nu12 / E1) + stiff_TRI_U_DEFAULT_r2_1 c c3 fn E1 E2 E3 nu12 nu23 nu13 G12 G23 G13 * (1 / E2) + stiff_TRI_U_DEFAULT_r2_2 c c3 fn E1 E2 E3 nu12 nu23 nu13 G12 G23 G13 * (-nu23 / E2) = 0 ∧
-    stiff_TRI_U_DEFAULT_r2_0 c c3 fn E1 E2 E3 nu12 nu23 nu13 G12 G23 G13 * (-nu13 / E1) + stiff_TRI_U_DEFAULT_r2_1 c c3 fn E1 E2 E3 nu12 nu23 nu13 G12 G23 G13 * (-nu23 / E2) + stiff_TRI_U_DEFAULT_r2_2 c c3 fn E1 E2 E3 nu12 nu23 nu13 G12 G23 G13 * (1 / E3) = 1 ∧
-    stiff_TRI_U_DEFAULT_r3_3 c c3 fn E1 E2 E3 nu12 nu23 nu13 G12 G23 G13 = 2 * G12 ∧
-    stiff_TRI_U_DEFAULT_r4_4 c c3 fn E1 E2 E3 nu12 nu23 nu13 G12 G23 G13 = 2 * G13 ∧
-    stiff_TRI_U_DEFAULT_r5_5 c c3 fn E1 E2 E3 nu12 nu23 nu13 G12 G23 G13 = 2 * G23 := by
-  stiff3d hd
-
-/-- AxisymmetricalGeneralisedPlaneStrain, UNALTERED, DEFAULT: component (i,j) = component (π i, π j) of the 3D stiffness tensor, π = [0, 1, 2] -/
-theorem stiff_AGPE_U_DEFAULT (E1 E2 E3 nu12 nu23 nu13 G12 G23 G13 : K) :
-    stiff_AGPE_U_DEFAULT_r0_0 c c3 fn E1 E2 E3 nu12 nu23 nu13 G12 G23 G13 = stiff_TRI_U_DEFAULT_r0_0 c c3 fn E1 E2 E3 nu12 nu23 nu13 G12 G23 G13 ∧
-    stiff_AGPE_U_DEFAULT_r0_1 c c3 fn E1 E2 E3 nu12 nu23 nu13 G12 G23 G13 = stiff_TRI_U_DEFAULT_r0_1 c c3 fn E1 E2 E3 nu12 nu23 nu13 G12 G23 G13 ∧
-    stiff_AGPE_U_DEFAULT_r0_2 c c3 fn E1 E2 E3 nu12 nu23 nu13 G12 G23 G13 = stiff_TRI_U_DEFAULT_r0_2 c c3 fn E1 E2 E3 nu12 nu23 nu13 G12 G23 G13 ∧
-    stiff_AGPE_U_DEFAULT_r1_0 c c3 fn E1 E2 E3 nu12 nu23 nu13 G12 G23 G13 = stiff_TRI_U_DEFAULT_r1_0 c c3 fn E1 E2 E3 nu12 nu23 nu13 G12 G23 G13 ∧
-    stiff_AGPE_U_DEFAULT_r1_1 c c3 fn E1 E2 E3 nu12 nu23 nu13 G12 G23 G13 = stiff_TRI_U_DEFAULT_r1_1 c c3 fn E1 E2 E3 nu12 nu23 nu13 G12 G23 G13 ∧
-    stiff_AGPE_U_DEFAULT_r1_2 c c3 fn E1 E2 E3 nu12 nu23 nu13 G12 G23 G13 = stiff_TRI_U_DEFAULT_r1_2 c c3 fn E1 E2 E3 nu12 nu23 nu13 G12 G23 G13 ∧
-    stiff_AGPE_U_DEFAULT_r2_0 c c3 fn E1 E2 E3 nu12 nu23 nu13 G12 G23 G13 = stiff_TRI_U_DEFAULT_r2_0 c c3 fn E1 E2 E3 nu12 nu23 nu13 G12 G23 G13 ∧
-    stiff_AGPE_U_DEFAULT_r2_1 c c3 fn E1 E2 E3 nu12 nu23 nu13 G12 G23 G13 = stiff_TRI_U_DEFAULT_r2_1 c c3 fn E1 E2 E3 nu12 nu23 nu13 G12 G23 G13 ∧
-    stiff_AGPE_U_DEFAULT_r2_2 c c3 fn E1 E2 E3 nu12 nu23 nu13 G12 G23 G13 = stiff_TRI_U_DEFAULT_r2_2 c c3 fn E1 E2 E3 nu12 nu23 nu13 G12 G23 G13 := by
-  axes_eq
-
-/-- AxisymmetricalGeneralisedPlaneStrain, UNALTERED, PIPE: component (i,j) = component (π i, π j) of the 3D stiffness tensor, π = [0, 1, 2] -/
-theorem stiff_AGPE_U_PIPE (E1 E2 E3 nu12 nu23 nu13 G12 G23 G13 : K) :
-    stiff_AGPE_U_PIPE_r0_0 c c3 fn E1 E2 E3 nu12 nu23 nu13 G12 G23 G13 = stiff_TRI_U_DEFAULT_r0_0 c c3 fn E1 E2 E3 nu12 nu23 nu13 G12 G23 G13 ∧
-    stiff_AGPE_U_PIPE_r0_1 c c3 fn E1 E2 E3 nu12 nu23 nu13 G12 G23 G13 = stiff_TRI_U_DEFAULT_r0_1 c c3 fn E1 E2 E3 nu12 nu23 nu13 G12 G23 G13 ∧
-    stiff_AGPE_U_PIPE_r0_2 c c3 fn E1 E2 E3 nu12 nu23 nu13 G12 G23 G13 = stiff_TRI_U_DEFAULT_r0_2 c c3 fn E1 E2 E3 nu12 nu23 nu13 G12 G23 G13 ∧
-    stiff_AGPE_U_PIPE_r1_0 c c3 fn E1 E2 E3 nu12 nu23 nu13 G12 G23 G13 = stiff_TRI_U_DEFAULT_r1_0 c c3 fn E1 E2 E3 nu12 nu23 nu13 G12 G23 G13 ∧
-    stiff_AGPE_U_PIPE_r1_1 c c3 fn E1 E2 E3 nu12 nu23 nu13 G12 G23 G13 = stiff_TRI_U_DEFAULT_r1_1 c c3 fn E1 E2 E3 nu12 nu23 nu13 G12 G23 G13 ∧
-    stiff_AGPE_U_PIPE_r1_2 c c3 fn E1 E2 E3 nu12 nu23 nu13 G12 G23 G13 = stiff_TRI_U_DEFAULT_r1_2 c c3 fn E1 E2 E3 nu12 nu23 nu13 G12 G23 G13 ∧
-    stiff_AGPE_U_PIPE_r2_0 c c3 fn E1 E2 E3 nu12 nu23 nu13 G12 G23 G13 = stiff_TRI_U_DEFAULT_r2_0 c c3 fn E1 E2 E3 nu12 nu23 nu13 G12 G23 G13 ∧
-    stiff_AGPE_U_PIPE_r2_1 c c3 fn E1 E2 E3 nu12 nu23 nu13 G12 G23 G13 = stiff_TRI_U_DEFAULT_r2_1 c c3 fn E1 E2 E3 nu12 nu23 nu13 G12 G23 G13 ∧
-    stiff_AGPE_U_PIPE_r2_2 c c3 fn E1 E2 E3 nu12 nu23 nu13 G12 G23 G13 = stiff_TRI_U_DEFAULT_r2_2 c c3 fn E1 E2 E3 nu12 nu23 nu13 G12 G23 G13 := by
-  axes_eq
-
-/-- AxisymmetricalGeneralisedPlaneStrain, ALTERED (no alteration for this hypothesis), DEFAULT: component (i,j) = component (π i, π j) of the 3D stiffness tensor, π = [0, 1, 2] -/
-theorem stiff_AGPE_A_DEFAULT (E1 E2 E3 nu12 nu23 nu13 G12 G23 G13 : K) :
-    stiff_AGPE_A_DEFAULT_r0_0 c c3 fn E1 E2 E3 nu12 nu23 nu13 G12 G23 G13 = stiff_TRI_U_DEFAULT_r0_0 c c3 fn E1 E2 E3 nu12 nu23 nu13 G12 G23 G13 ∧
-    stiff_AGPE_A_DEFAULT_r0_1 c c3 fn E1 E2 E3 nu12 nu23 nu13 G12 G23 G13 = stiff_TRI_U_DEFAULT_r0_1 c c3 fn E1 E2 E3 nu12 nu23 nu13 G12 G23 G13 ∧
-    stiff_AGPE_A_DEFAULT_r0_2 c c3 fn E1 E2 E3 nu12 nu23 nu13 G12 G23 G13 = stiff_TRI_U_DEFAULT_r0_2 c c3 fn E1 E2 E3 nu12 nu23 nu13 G12 G23 G13 ∧
-    stiff_AGPE_A_DEFAULT_r1_0 c c3 fn E1 E2 E3 nu12 nu23 nu13 G12 G23 G13 = stiff_TRI_U_DEFAULT_r1_0 c c3 fn E1 E2 E3 nu12 nu23 nu13 G12 G23 G13 ∧
-    stiff_AGPE_A_DEFAULT_r1_1 c c3 fn E1 E2 E3 nu12 nu23 nu13 G12 G23 G13 = stiff_TRI_U_DEFAULT_r1_1 c c3 fn E1 E2 E3 nu12 nu23 nu13 G12 G23 G13 ∧
-    stiff_AGPE_A_DEFAULT_r1_2 c c3 fn E1 E2 E3 nu12 nu23 nu13 G12 G23 G13 = stiff_TRI_U_DEFAULT_r1_2 c c3 fn E1 E2 E3 nu12 nu23 nu13 G12 G23 G13 ∧
-    stiff_AGPE_A_DEFAULT_r2_0 c c3 fn E1 E2 E3 nu12 nu23 nu13 G12 G23 G13 = stiff_TRI_U_DEFAULT_r2_0 c c3 fn E1 E2 E3 nu12 nu23 nu13 G12 G23 G13 ∧
-    stiff_AGPE_A_DEFAULT_r2_1 c c3 fn E1 E2 E3 nu12 nu23 nu13 G12 G23 G13 = stiff_TRI_U_DEFAULT_r2_1 c c3 fn E1 E2 E3 nu12 nu23 nu13 G12 G23 G13 ∧
-    stiff_AGPE_A_DEFAULT_r2_2 c c3 fn E1 E2 E3 nu12 nu23 nu13 G12 G23 G13 = stiff_TRI_U_DEFAULT_r2_2 c c3 fn E1 E2 E3 nu12 nu23 nu13 G12 G23 G13 := by
-  axes_eq
-
-/-- AxisymmetricalGeneralisedPlaneStrain, ALTERED (no alteration for this hypothesis), PIPE: component (i,j) = component (π i, π j) of the 3D stiffness tensor, π = [0, 1, 2] -/
-theorem stiff_AGPE_A_PIPE (E1 E2 E3 nu12 nu23 nu13 G12 G23 G13 : K) :
-    stiff_AGPE_A_PIPE_r0_0 c c3 fn E1 E2 E3 nu12 nu23 nu13 G12 G23 G13 = stiff_TRI_U_DEFAULT_r0_0 c c3 fn E1 E2 E3 nu12 nu23 nu13 G12 G23 G13 ∧
-    stiff_AGPE_A_PIPE_r0_1 c c3 fn E1 E2 E3 nu12 nu23 nu13 G12 G23 G13 = stiff_TRI_U_DEFAULT_r0_1 c c3 fn E1 E2 E3 nu12 nu23 nu13 G12 G23 G13 ∧
-    stiff_AGPE_A_PIPE_r0_2 c c3 fn E1 E2 E3 nu12 nu23 nu13 G12 G23 G13 = stiff_TRI_U_DEFAULT_r0_2 c c3 fn E1 E2 E3 nu12 nu23 nu13 G12 G23 G13 ∧
-    stiff_AGPE_A_PIPE_r1_0 c c3 fn E1 E2 E3 nu12 nu23 nu13 G12 G23 G13 = stiff_TRI_U_DEFAULT_r1_0 c c3 fn E1 E2 E3 nu12 nu23 nu13 G12 G23 G13 ∧
-    stiff_AGPE_A_PIPE_r1_1 c c3 fn E1 E2 E3 nu12 nu23 nu13 G12 G23 G13 = stiff_TRI_U_DEFAULT_r1_1 c c3 fn E1 E2 E3 nu12 nu23 nu13 G12 G23 G13 ∧
-    stiff_AGPE_A_PIPE_r1_2 c c3 fn E1 E2 E3 nu12 nu23 nu13 G12 G23 G13 = stiff_TRI_U_DEFAULT_r1_2 c c3 fn E1 E2 E3 nu12 nu23 nu13 G12 G23 G13 ∧
-    stiff_AGPE_A_PIPE_r2_0 c c3 fn E1 E2 E3 nu12 nu23 nu13 G12 G23 G13 = stiff_TRI_U_DEFAULT_r2_0 c c3 fn E1 E2 E3 nu12 nu23 nu13 G12 G23 G13 ∧
-    stiff_AGPE_A_PIPE_r2_1 c c3 fn E1 E2 E3 nu12 nu23 nu13 G12 G23 G13 = stiff_TRI_U_DEFAULT_r2_1 c c3 fn E1 E2 E3 nu12 nu23 nu13 G12 G23 G13 ∧
-    stiff_AGPE_A_PIPE_r2_2 c c3 fn E1 E2 E3 nu12 nu23 nu13 G12 G23 G13 = stiff_TRI_U_DEFAULT_r2_2 c c3 fn E1 E2 E3 nu12 nu23 nu13 G12 G23 G13 := by
-  axes_eq
-
-/-- AxisymmetricalGeneralisedPlaneStress, UNALTERED, DEFAULT: component (i,j) = component (π i, π j) of the 3D stiffness tensor, π = [0, 1, 2] -/
-theorem stiff_AGPS_U_DEFAULT (E1 E2 E3 nu12 nu23 nu13 G12 G23 G13 : K) :
-    stiff_AGPS_U_DEFAULT_r0_0 c c3 fn E1 E2 E3 nu12 nu23 nu13 G12 G23 G13 = stiff_TRI_U_DEFAULT_r0_0 c c3 fn E1 E2 E3 nu12 nu23 nu13 G12 G23 G13 ∧
-    stiff_AGPS_U_DEFAULT_r0_1 c c3 fn E1 E2 E3 nu12 nu23 nu13 G12 G23 G13 = stiff_TRI_U_DEFAULT_r0_1 c c3 fn E1 E2 E3 nu12 nu23 nu13 G12 G23 G13 ∧
-    stiff_AGPS_U_DEFAULT_r0_2 c c3 fn E1 E2 E3 nu12 nu23 nu13 G12 G23 G13 = stiff_TRI_U_DEFAULT_r0_2 c c3 fn E1 E2 E3 nu12 nu23 nu13 G12 G23 G13 ∧
-    stiff_AGPS_U_DEFAULT_r1_0 c c3 fn E1 E2 E3 nu12 nu23 nu13 G12 G23 G13 = stiff_TRI_U_DEFAULT_r1_0 c c3 fn E1 E2 E3 nu12 nu23 nu13 G12 G23 G13 ∧
-    stiff_AGPS_U_DEFAULT_r1_1 c c3 fn E1 E2 E3 nu12 nu23 nu13 G12 G23 G13 = stiff_TRI_U_DEFAULT_r1_1 c c3 fn E1 E2 E3 nu12 nu23 nu13 G12 G23 G13 ∧
-    stiff_AGPS_U_DEFAULT_r1_2 c c3 fn E1 E2 E3 nu12 nu23 nu13 G12 G23 G13 = stiff_TRI_U_DEFAULT_r1_2 c c3 fn E1 E2 E3 nu12 nu23 nu13 G12 G23 G13 ∧
-    stiff_AGPS_U_DEFAULT_r2_0 c c3 fn E1 E2 E3 nu12 nu23 nu13 G12 G23 G13 = stiff_TRI_U_DEFAULT_r2_0 c c3 fn E1 E2 E3 nu12 nu23 nu13 G12 G23 G13 ∧
-    stiff_AGPS_U_DEFAULT_r2_1 c c3 fn E1 E2 E3 nu12 nu23 nu13 G12 G23 G13 = stiff_TRI_U_DEFAULT_r2_1 c c3 fn E1 E2 E3 nu12 nu23 nu13 G12 G23 G13 ∧
-    stiff_AGPS_U_DEFAULT_r2_2 c c3 fn E1 E2 E3 nu12 nu23 nu13 G12 G23 G13 = stiff_TRI_U_DEFAULT_r2_2 c c3 fn E1 E2 E3 nu12 nu23 nu13 G12 G23 G13 := by
-  axes_eq
-
-/-- AxisymmetricalGeneralisedPlaneStress, UNALTERED, PIPE: component (i,j) = component (π i, π j) of the 3D stiffness tensor, π = [0, 1, 2] -/
-theorem stiff_AGPS_U_PIPE (E1 E2 E3 nu12 nu23 nu13 G12 G23 G13 : K) :
-    stiff_AGPS_U_PIPE_r0_0 c c3 fn E1 E2 E3 nu12 nu23 nu13 G12 G23 G13 = stiff_TRI_U_DEFAULT_r0_0 c c3 fn E1 E2 E3 nu12 nu23 nu13 G12 G23 G13 ∧
-    stiff_AGPS_U_PIPE_r0_1 c c3 fn E1 E2 E3 nu12 nu23 nu13 G12 G23 G13 = stiff_TRI_U_DEFAULT_r0_1 c c3 fn E1 E2 E3 nu12 nu23 nu13 G12 G23 G13 ∧
-    stiff_AGPS_U_PIPE_r0_2 c c3 fn E1 E2 E3 nu12 nu23 nu13 G12 G23 G13 = stiff_TRI_U_DEFAULT_r0_2 c c3 fn E1 E2 E3 nu12 nu23 nu13 G12 G23 G13 ∧
-    stiff_AGPS_U_PIPE_r1_0 c c3 fn E1 E2 E3 nu12 nu23 nu13 G12 G23 G13 = stiff_TRI_U_DEFAULT_r1_0 c c3 fn E1 E2 E3 nu12 nu23 nu13 G12 G23 G13 ∧
-    stiff_AGPS_U_PIPE_r1_1 c c3 fn E1 E2 E3 nu12 nu23 nu13 G12 G23 G13 = stiff_TRI_U_DEFAULT_r1_1 c c3 fn E1 E2 E3 nu12 nu23 nu13 G12 G23 G13 ∧
-    stiff_AGPS_U_PIPE_r1_2 c c3 fn E1 E2 E3 nu12 nu23 nu13 G12 G23 G13 = stiff_TRI_U_DEFAULT_r1_2 c c3 fn E1 E2 E3 nu12 nu23 nu13 G12 G23 G13 ∧
-    stiff_AGPS_U_PIPE_r2_0 c c3 fn E1 E2 E3 nu12 nu23 nu13 G12 G23 G13 = stiff_TRI_U_DEFAULT_r2_0 c c3 fn E1 E2 E3 nu12 nu23 nu13 G12 G23 G13 ∧
-    stiff_AGPS_U_PIPE_r2_1 c c3 fn E1 E2 E3 nu12 nu23 nu13 G12 G23 G13 = stiff_TRI_U_DEFAULT_r2_1 c c3 fn E1 E2 E3 nu12 nu23 nu13 G12 G23 G13 ∧
-    stiff_AGPS_U_PIPE_r2_2 c c3 fn E1 E2 E3 nu12 nu23 nu13 G12 G23 G13 = stiff_TRI_U_DEFAULT_r2_2 c c3 fn E1 E2 E3 nu12 nu23 nu13 G12 G23 G13 := by
-  axes_eq
-
-/-- AxisymmetricalGeneralisedPlaneStress, ALTERED, DEFAULT: in-plane components = static condensation of the 3D stiffness tensor on the stress-free 3D axis 1 (C_ij − C_ik C_kj / C_kk read through π = [0, 1, 2]), zero row and column for that axis -/
-theorem stiff_AGPS_A_DEFAULT (E1 E2 E3 nu12 nu23 nu13 G12 G23 G13 : K) :
-    stiff_AGPS_A_DEFAULT_r0_0 c c3 fn E1 E2 E3 nu12 nu23 nu13 G12 G23 G13 = stiff_TRI_U_DEFAULT_r0_0 c c3 fn E1 E2 E3 nu12 nu23 nu13 G12 G23 G13 - stiff_TRI_U_DEFAULT_r0_1 c c3 fn E1 E2 E3 nu12 nu23 nu13 G12 G23 G13 * (stiff_TRI_U_DEFAULT_r1_0 c c3 fn E1 E2 E3 nu12 nu23 nu13 G12 G23 G13 / stiff_TRI_U_DEFAULT_r1_1 c c3 fn E1 E2 E3 nu12 nu23 nu13 G12 G23 G13) ∧
-    stiff_AGPS_A_DEFAULT_r0_1 c c3 fn E1 E2 E3 nu12 nu23 nu13 G12 G23 G13 = 0 ∧
-    stiff_AGPS_A_DEFAULT_r0_2 c c3 fn E1 E2 E3 nu12 nu23 nu13 G12 G23 G13 = stiff_TRI_U_DEFAULT_r0_2 c c3 fn E1 E2 E3 nu12 nu23 nu13 G12 G23 G13 - stiff_TRI_U_DEFAULT_r0_1 c c3 fn E1 E2 E3 nu12 nu23 nu13 G12 G23 G13 * (stiff_TRI_U_DEFAULT_r1_2 c c3 fn E1 E2 E3 nu12 nu23 nu13 G12 G23 G13 / stiff_TRI_U_DEFAULT_r1_1 c c3 fn E1 E2 E3 nu12 nu23 nu13 G12 G23 G13) ∧
-    stiff_AGPS_A_DEFAULT_r1_0 c c3 fn E1 E2 E3 nu12 nu23 nu13 G12 G23 G13 = 0 ∧
-    stiff_AGPS_A_DEFAULT_r1_1 c c3 fn E1 E2 E3 nu12 nu23 nu13 G12 G23 G13 = 0 ∧
-    stiff_AGPS_A_DEFAULT_r1_2 c c3 fn E1 E2 E3 nu12 nu23 nu13 G12 G23 G13 = 0 ∧
-    stiff_AGPS_A_DEFAULT_r2_0 c c3 fn E1 E2 E3 nu12 nu23 nu13 G12 G23 G13 = stiff_TRI_U_DEFAULT_r2_0 c c3 fn E1 E2 E3 nu12 nu23 nu13 G12 G23 G13 - stiff_TRI_U_DEFAULT_r2_1 c c3 fn E1 E2 E3 nu12 nu23 nu13 G12 G23 G13 * (stiff_TRI_U_DEFAULT_r1_0 c c3 fn E1 E2 E3 nu12 nu23 nu13 G12 G23 G13 / stiff_TRI_U_DEFAULT_r1_1 c c3 fn E1 E2 E3 nu12 nu23 nu13 G12 G23 G13) ∧
-    stiff_AGPS_A_DEFAULT_r2_1 c c3 fn E1 E2 E3 nu12 nu23 nu13 G12 G23 G13 = 0 ∧
-    stiff_AGPS_A_DEFAULT_r2_2 c c3 fn E1 E2 E3 nu12 nu23 nu13 G12 G23 G13 = stiff_TRI_U_DEFAULT_r2_2 c c3 fn E1 E2 E3 nu12 nu23 nu13 G12 G23 G13 - stiff_TRI_U_DEFAULT_r2_1 c c3 fn E1 E2 E3 nu12 nu23 nu13 G12 G23 G13 * (stiff_TRI_U_DEFAULT_r1_2 c c3 fn E1 E2 E3 nu12 nu23 nu13 G12 G23 G13 / stiff_TRI_U_DEFAULT_r1_1 c c3 fn E1 E2 E3 nu12 nu23 nu13 G12 G23 G13) := by
-  axes_eq
-
-/-- AxisymmetricalGeneralisedPlaneStress, ALTERED, PIPE: in-plane components = static condensation of the 3D stiffness tensor on the stress-free 3D axis 1 (C_ij − C_ik C_kj / C_kk read through π = [0, 1, 2]), zero row and column for that axis -/
-theorem stiff_AGPS_A_PIPE (E1 E2 E3 nu12 nu23 nu13 G12 G23 G13 : K) :
-    stiff_AGPS_A_PIPE_r0_0 c c3 fn E1 E2 E3 nu12 nu23 nu13 G12 G23 G13 = stiff_TRI_U_DEFAULT_r0_0 c c3 fn E1 E2 E3 nu12 nu23 nu13 G12 G23 G13 - stiff_TRI_U_DEFAULT_r0_1 c c3 fn E1 E2 E3 nu12 nu23 nu13 G12 G23 G13 * (stiff_TRI_U_DEFAULT_r1_0 c c3 fn E1 E2 E3 nu12 nu23 nu13 G12 G23 G13 / stiff_TRI_U_DEFAULT_r1_1 c c3 fn E1 E2 E3 nu12 nu23 nu13 G12 G23 G13) ∧
-    stiff_AGPS_A_PIPE_r0_1 c c3 fn E1 E2 E3 nu12 nu23 nu13 G12 G23 G13 = 0 ∧
-    stiff_AGPS_A_PIPE_r0_2 c c3 fn E1 E2 E3 nu12 nu23 nu13 G12 G23 G13 = stiff_TRI_U_DEFAULT_r0_2 c c3 fn E1 E2 E3 nu12 nu23 nu13 G12 G23 G13 - stiff_TRI_U_DEFAULT_r0_1 c c3 fn E1 E2 E3 nu12 nu23 nu13 G12 G23 G13 * (stiff_TRI_U_DEFAULT_r1_2 c c3 fn E1 E2 E3 nu12 nu23 nu13 G12 G23 G13 / stiff_TRI_U_DEFAULT_r1_1 c c3 fn E1 E2 E3 nu12 nu23 nu13 G12 G23 G13) ∧
-    stiff_AGPS_A_PIPE_r1_0 c c3 fn E1 E2 E3 nu12 nu23 nu13 G12 G23 G13 = 0 ∧
-    stiff_AGPS_A_PIPE_r1_1 c c3 fn E1 E2 E3 nu12 nu23 nu13 G12 G23 G13 = 0 ∧
-    stiff_AGPS_A_PIPE_r1_2 c c3 fn E1 E2 E3 nu12 nu23 nu13 G12 G23 G13 = 0 ∧
-    stiff_AGPS_A_PIPE_r2_0 c c3 fn E1 E2 E3 nu12 nu23 nu13 G12 G23 G13 = stiff_TRI_U_DEFAULT_r2_0 c c3 fn E1 E2 E3 nu12 nu23 nu13 G12 G23 G13 - stiff_TRI_U_DEFAULT_r2_1 c c3 fn E1 E2 E3 nu12 nu23 nu13 G12 G23 G13 * (stiff_TRI_U_DEFAULT_r1_0 c c3 fn E1 E2 E3 nu12 nu23 nu13 G12 G23 G13 / stiff_TRI_U_DEFAULT_r1_1 c c3 fn E1 E2 E3 nu12 nu23 nu13 G12 G23 G13) ∧
-    stiff_AGPS_A_PIPE_r2_1 c c3 fn E1 E2 E3 nu12 nu23 nu13 G12 G23 G13 = 0 ∧
-    stiff_AGPS_A_PIPE_r2_2 c c3 fn E1 E2 E3 nu12 nu23 nu13 G12 G23 G13 = stiff_TRI_U_DEFAULT_r2_2 c c3 fn E1 E2 E3 nu12 nu23 nu13 G12 G23 G13 - stiff_TRI_U_DEFAULT_r2_1 c c3 fn E1 E2 E3 nu12 nu23 nu13 G12 G23 G13 * (stiff_TRI_U_DEFAULT_r1_2 c c3 fn E1 E2 E3 nu12 nu23 nu13 G12 G23 G13 / stiff_TRI_U_DEFAULT_r1_1 c c3 fn E1 E2 E3 nu12 nu23 nu13 G12 G23 G13) := by
-  axes_eq
-
-/-- Axisymmetrical, UNALTERED, DEFAULT: component (i,j) = component (π i, π j) of the 3D stiffness tensor, π = [0, 1, 2, 3] -/
-theorem stiff_AXI_U_DEFAULT (E1 E2 E3 nu12 nu23 nu13 G12 G23 G13 : K) :
-    stiff_AXI_U_DEFAULT_r0_0 c c3 fn E1 E2 E3 nu12 nu23 nu13 G12 G23 G13 = stiff_TRI_U_DEFAULT_r0_0 c c3 fn E1 E2 E3 nu12 nu23 nu13 G12 G23 G13 ∧
-    stiff_AXI_U_DEFAULT_r0_1 c c3 fn E1 E2 E3 nu12 nu23 nu13 G12 G23 G13 = stiff_TRI_U_DEFAULT_r0_1 c c3 fn E1 E2 E3 nu12 nu23 nu13 G12 G23 G13 ∧
-    stiff_AXI_U_DEFAULT_r0_2 c c3 fn E1 E2 E3 nu12 nu23 nu13 G12 G23 G13 = stiff_TRI_U_DEFAULT_r0_2 c c3 fn E1 E2 E3 nu12 nu23 nu13 G12 G23 G13 ∧
-    stiff_AXI_U_DEFAULT_r0_3 c c3 fn E1 E2 E3 nu12 nu23 nu13 G12 G23 G13 = stiff_TRI_U_DEFAULT_r0_3 c c3 fn E1 E2 E3 nu12 nu23 nu13 G12 G23 G13 ∧
-    stiff_AXI_U_DEFAULT_r1_0 c c3 fn E1 E2 E3 nu12 nu23 nu13 G12 G23 G13 = stiff_TRI_U_DEFAULT_r1_0 c c3 fn E1 E2 E3 nu12 nu23 nu13 G12 G23 G13 ∧
-    stiff_AXI_U_DEFAULT_r1_1 c c3 fn E1 E2 E3 nu12 nu23 nu13 G12 G23 G13 = stiff_TRI_U_DEFAULT_r1_1 c c3 fn E1 E2 E3 nu12 nu23 nu13 G12 G23 G13 ∧
-    stiff_AXI_U_DEFAULT_r1_2 c c3 fn E1 E2 E3 nu12 nu23 nu13 G12 G23 G13 = stiff_TRI_U_DEFAULT_r1_2 c c3 fn E1 E2 E3 nu12 nu23 nu13 G12 G23 G13 ∧
-    stiff_AXI_U_DEFAULT_r1_3 c c3 fn E1 E2 E3 nu12 nu23 nu13 G12 G23 G13 = stiff_TRI_U_DEFAULT_r1_3 c c3 fn E1 E2 E3 nu12 nu23 nu13 G12 G23 G13 ∧
-    stiff_AXI_U_DEFAULT_r2_0 c c3 fn E1 E2 E3 nu12 nu23 nu13 G12 G23 G13 = stiff_TRI_U_DEFAULT_r2_0 c c3 fn E1 E2 E3 nu12 nu23 nu13 G12 G23 G13 ∧
-    stiff_AXI_U_DEFAULT_r2_1 c c3 fn E1 E2 E3 nu12 nu23 nu13 G12 G23 G13 = stiff_TRI_U_DEFAULT_r2_1 c c3 fn E1 E2 E3 nu12 nu23 nu13 G12 G23 G13 ∧
-    stiff_AXI_U_DEFAULT_r2_2 c c3 fn E1 E2 E3 nu12 nu23 nu13 G12 G23 G13 = stiff_TRI_U_DEFAULT_r2_2 c c3 fn E1 E2 E3 nu12 nu23 nu13 G12 G23 G13 ∧
-    stiff_AXI_U_DEFAULT_r2_3 c c3 fn E1 E2 E3 nu12 nu23 nu13 G12 G23 G13 = stiff_TRI_U_DEFAULT_r2_3 c c3 fn E1 E2 E3 nu12 nu23 nu13 G12 G23 G13 ∧
-    stiff_AXI_U_DEFAULT_r3_0 c c3 fn E1 E2 E3 nu12 nu23 nu13 G12 G23 G13 = stiff_TRI_U_DEFAULT_r3_0 c c3 fn E1 E2 E3 nu12 nu23 nu13 G12 G23 G13 ∧
-    stiff_AXI_U_DEFAULT_r3_1 c c3 fn E1 E2 E3 nu12 nu23 nu13 G12 G23 G13 = stiff_TRI_U_DEFAULT_r3_1 c c3 fn E1 E2 E3 nu12 nu23 nu13 G12 G23 G13 ∧
-    stiff_AXI_U_DEFAULT_r3_2 c c3 fn E1 E2 E3 nu12 nu23 nu13 G12 G23 G13 = stiff_TRI_U_DEFAULT_r3_2 c c3 fn E1 E2 E3 nu12 nu23 nu13 G12 G23 G13 ∧
-    stiff_AXI_U_DEFAULT_r3_3 c c3 fn E1 E2 E3 nu12 nu23 nu13 G12 G23 G13 = stiff_TRI_U_DEFAULT_r3_3 c c3 fn E1 E2 E3 nu12 nu23 nu13 G12 G23 G13 := by
-  axes_eq
-
-/-- Axisymmetrical, UNALTERED, PIPE: component (i,j) = component (π i, π j) of the 3D stiffness tensor, π = [0, 1, 2, 3] -/
-theorem stiff_AXI_U_PIPE (E1 E2 E3 nu12 nu23 nu13 G12 G23 G13 : K) :
-    stiff_AXI_U_PIPE_r0_0 c c3 fn E1 E2 E3 nu12 nu23 nu13 G12 G23 G13 = stiff_TRI_U_DEFAULT_r0_0 c c3 fn E1 E2 E3 nu12 nu23 nu13 G12 G23 G13 ∧
-    stiff_AXI_U_PIPE_r0_1 c c3 fn E1 E2 E3 nu12 nu23 nu13 G12 G23 G13 = stiff_TRI_U_DEFAULT_r0_1 c c3 fn E1 E2 E3 nu12 nu23 nu13 G12 G23 G13 ∧
-    stiff_AXI_U_PIPE_r0_2 c c3 fn E1 E2 E3 nu12 nu23 nu13 G12 G23 G13 = stiff_TRI_U_DEFAULT_r0_2 c c3 fn E1 E2 E3 nu12 nu23 nu13 G12 G23 G13 ∧
-    stiff_AXI_U_PIPE_r0_3 c c3 fn E1 E2 E3 nu12 nu23 nu13 G12 G23 G13 = stiff_TRI_U_DEFAULT_r0_3 c c3 fn E1 E2 E3 nu12 nu23 nu13 G12 G23 G13 ∧
-    stiff_AXI_U_PIPE_r1_0 c c3 fn E1 E2 E3 nu12 nu23 nu13 G12 G23 G13 = stiff_TRI_U_DEFAULT_r1_0 c c3 fn E1 E2 E3 nu12 nu23 nu13 G12 G23 G13 ∧
-    stiff_AXI_U_PIPE_r1_1 c c3 fn E1 E2 E3 nu12 nu23 nu13 G12 G23 G13 = stiff_TRI_U_DEFAULT_r1_1 c c3 fn E1 E2 E3 nu12 nu23 nu13 G12 G23 G13 ∧
-    stiff_AXI_U_PIPE_r1_2 c c3 fn E1 E2 E3 nu12 nu23 nu13 G12 G23 G13 = stiff_TRI_U_DEFAULT_r1_2 c c3 fn E1 E2 E3 nu12 nu23 nu13 G12 G23 G13 ∧
-    stiff_AXI_U_PIPE_r1_3 c c3 fn E1 E2 E3 nu12 nu23 nu13 G12 G23 G13 = stiff_TRI_U_DEFAULT_r1_3 c c3 fn E1 E2 E3 nu12 nu23 nu13 G12 G23 G13 ∧
-    stiff_AXI_U_PIPE_r2_0 c c3 fn E1 E2 E3 nu12 nu23 nu13 G12 G23 G13 = stiff_TRI_U_DEFAULT_r2_0 c c3 fn E1 E2 E3 nu12 nu23 nu13 G12 G23 G13 ∧
-    stiff_AXI_U_PIPE_r2_1 c c3 fn E1 E2 E3 nu12 nu23 nu13 G12 G23 G13 = stiff_TRI_U_DEFAULT_r2_1 c c3 fn E1 E2 E3 nu12 nu23 nu13 G12 G23 G13 ∧
-    stiff_AXI_U_PIPE_r2_2 c c3 fn E1 E2 E3 nu12 nu23 nu13 G12 G23 G13 = stiff_TRI_U_DEFAULT_r2_2 c c3 fn E1 E2 E3 nu12 nu23 nu13 G12 G23 G13 ∧
-    stiff_AXI_U_PIPE_r2_3 c c3 fn E1 E2 E3 nu12 nu23 nu13 G12 G23 G13 = stiff_TRI_U_DEFAULT_r2_3 c c3 fn E1 E2 E3 nu12 nu23 nu13 G12 G23 G13 ∧
-    stiff_AXI_U_PIPE_r3_0 c c3 fn E1 E2 E3 nu12 nu23 nu13 G12 G23 G13 = stiff_TRI_U_DEFAULT_r3_0 c c3 fn E1 E2 E3 nu12 nu23 nu13 G12 G23 G13 ∧
-    stiff_AXI_U_PIPE_r3_1 c c3 fn E1 E2 E3 nu12 nu23 nu13 G12 G23 G13 = stiff_TRI_U_DEFAULT_r3_1 c c3 fn E1 E2 E3 nu12 nu23 nu13 G12 G23 G13 ∧
-    stiff_AXI_U_PIPE_r3_2 c c3 fn E1 E2 E3 nu12 nu23 nu13 G12 G23 G13 = stiff_TRI_U_DEFAULT_r3_2 c c3 fn E1 E2 E3 nu12 nu23 nu13 G12 G23 G13 ∧
-    stiff_AXI_U_PIPE_r3_3 c c3 fn E1 E2 E3 nu12 nu23 nu13 G12 G23 G13 = stiff_TRI_U_DEFAULT_r3_3 c c3 fn E1 E2 E3 nu12 nu23 nu13 G12 G23 G13 := by
-  axes_eq
-
-/-- Axisymmetrical, ALTERED (no alteration for this hypothesis), DEFAULT: component (i,j) = component (π i, π j) of the 3D stiffness tensor, π = [0, 1, 2, 3] -/
-theorem stiff_AXI_A_DEFAULT (E1 E2 E3 nu12 nu23 nu13 G12 G23 G13 : K) :
-    stiff_AXI_A_DEFAULT_r0_0 c c3 fn E1 E2 E3 nu12 nu23 nu13 G12 G23 G13 = stiff_TRI_U_DEFAULT_r0_0 c c3 fn E1 E2 E3 nu12 nu23 nu13 G12 G23 G13 ∧
-    stiff_AXI_A_DEFAULT_r0_1 c c3 fn E1 E2 E3 nu12 nu23 nu13 G12 G23 G13 = stiff_TRI_U_DEFAULT_r0_1 c c3 fn E1 E2 E3 nu12 nu23 nu13 G12 G23 G13 ∧
-    stiff_AXI_A_DEFAULT_r0_2 c c3 fn E1 E2 E3 nu12 nu23 nu13 G12 G23 G13 = stiff_TRI_U_DEFAULT_r0_2 c c3 fn E1 E2 E3 nu12 nu23 nu13 G12 G23 G13 ∧
-    stiff_AXI_A_DEFAULT_r0_3 c c3 fn E1 E2 E3 nu12 nu23 nu13 G12 G23 G13 = stiff_TRI_U_DEFAULT_r0_3 c c3 fn E1 E2 E3 nu12 nu23 nu13 G12 G23 G13 ∧
-    stiff_AXI_A_DEFAULT_r1_0 c c3 fn E1 E2 E3 nu12 nu23 nu13 G12 G23 G13 = stiff_TRI_U_DEFAULT_r1_0 c c3 fn E1 E2 E3 nu12 nu23 nu13 G12 G23 G13 ∧
-    stiff_AXI_A_DEFAULT_r1_1 c c3 fn E1 E2 E3 nu12 nu23 nu13 G12 G23 G13 = stiff_TRI_U_DEFAULT_r1_1 c c3 fn E1 E2 E3 nu12 nu23 nu13 G12 G23 G13 ∧
-    stiff_AXI_A_DEFAULT_r1_2 c c3 fn E1 E2 E3 nu12 nu23 nu13 G12 G23 G13 = stiff_TRI_U_DEFAULT_r1_2 c c3 fn E1 E2 E3 nu12 nu23 nu13 G12 G23 G13 ∧
-    stiff_AXI_A_DEFAULT_r1_3 c c3 fn E1 E2 E3 nu12 nu23 nu13 G12 G23 G13 = stiff_TRI_U_DEFAULT_r1_3 c c3 fn E1 E2 E3 nu12 nu23 nu13 G12 G23 G13 ∧
-    stiff_AXI_A_DEFAULT_r2_0 c c3 fn E1 E2 E3 nu12 nu23 nu13 G12 G23 G13 = stiff_TRI_U_DEFAULT_r2_0 c c3 fn E1 E2 E3 nu12 nu23 nu13 G12 G23 G13 ∧
-    stiff_AXI_A_DEFAULT_r2_1 c c3 fn E1 E2 E3 nu12 nu23 nu13 G12 G23 G13 = stiff_TRI_U_DEFAULT_r2_1 c c3 fn E1 E2 E3 nu12 nu23 nu13 G12 G23 G13 ∧
-    stiff_AXI_A_DEFAULT_r2_2 c c3 fn E1 E2 E3 nu12 nu23 nu13 G12 G23 G13 = stiff_TRI_U_DEFAULT_r2_2 c c3 fn E1 E2 E3 nu12 nu23 nu13 G12 G23 G13 ∧
-    stiff_AXI_A_DEFAULT_r2_3 c c3 fn E1 E2 E3 nu12 nu23 nu13 G12 G23 G13 = stiff_TRI_U_DEFAULT_r2_3 c c3 fn E1 E2 E3 nu12 nu23 nu13 G12 G23 G13 ∧
-    stiff_AXI_A_DEFAULT_r3_0 c c3 fn E1 E2 E3 nu12 nu23 nu13 G12 G23 G13 = stiff_TRI_U_DEFAULT_r3_0 c c3 fn E1 E2 E3 nu12 nu23 nu13 G12 G23 G13 ∧
-    stiff_AXI_A_DEFAULT_r3_1 c c3 fn E1 E2 E3 nu12 nu23 nu13 G12 G23 G13 = stiff_TRI_U_DEFAULT_r3_1 c c3 fn E1 E2 E3 nu12 nu23 nu13 G12 G23 G13 ∧
-    stiff_AXI_A_DEFAULT_r3_2 c c3 fn E1 E2 E3 nu12 nu23 nu13 G12 G23 G13 = stiff_TRI_U_DEFAULT_r3_2 c c3 fn E1 E2 E3 nu12 nu23 nu13 G12 G23 G13 ∧
-    stiff_AXI_A_DEFAULT_r3_3 c c3 fn E1 E2 E3 nu12 nu23 nu13 G12 G23 G13 = stiff_TRI_U_DEFAULT_r3_3 c c3 fn E1 E2 E3 nu12 nu23 nu13 G12 G23 G13 := by
-  axes_eq
-
-/-- Axisymmetrical, ALTERED (no alteration for this hypothesis), PIPE: component (i,j) = component (π i, π j) of the 3D stiffness tensor, π = [0, 1, 2, 3] -/
-theorem stiff_AXI_A_PIPE (E1 E2 E3 nu12 nu23 nu13 G12 G23 G13 : K) :
-    stiff_AXI_A_PIPE_r0_0 c c3 fn E1 E2 E3 nu12 nu23 nu13 G12 G23 G13 = stiff_TRI_U_DEFAULT_r0_0 c c3 fn E1 E2 E3 nu12 nu23 nu13 G12 G23 G13 ∧
-    stiff_AXI_A_PIPE_r0_1 c c3 fn E1 E2 E3 nu12 nu23 nu13 G12 G23 G13 = stiff_TRI_U_DEFAULT_r0_1 c c3 fn E1 E2 E3 nu12 nu23 nu13 G12 G23 G13 ∧
-    stiff_AXI_A_PIPE_r0_2 c c3 fn E1 E2 E3 nu12 nu23 nu13 G12 G23 G13 = stiff_TRI_U_DEFAULT_r0_2 c c3 fn E1 E2 E3 nu12 nu23 nu13 G12 G23 G13 ∧
-    stiff_AXI_A_PIPE_r0_3 c c3 fn E1 E2 E3 nu12 nu23 nu13 G12 G23 G13 = stiff_TRI_U_DEFAULT_r0_3 c c3 fn E1 E2 E3 nu12 nu23 nu13 G12 G23 G13 ∧
-    stiff_AXI_A_PIPE_r1_0 c c3 fn E1 E2 E3 nu12 nu23 nu13 G12 G23 G13 = stiff_TRI_U_DEFAULT_r1_0 c c3 fn E1 E2 E3 nu12 nu23 nu13 G12 G23 G13 ∧
-    stiff_AXI_A_PIPE_r1_1 c c3 fn E1 E2 E3 nu12 nu23 nu13 G12 G23 G13 = stiff_TRI_U_DEFAULT_r1_1 c c3 fn E1 E2 E3 nu12 nu23 nu13 G12 G23 G13 ∧
-    stiff_AXI_A_PIPE_r1_2 c c3 fn E1 E2 E3 nu12 nu23 nu13 G12 G23 G13 = stiff_TRI_U_DEFAULT_r1_2 c c3 fn E1 E2 E3 nu12 nu23 nu13 G12 G23 G13 ∧
-    stiff_AXI_A_PIPE_r1_3 c c3 fn E1 E2 E3 nu12 nu23 nu13 G12 G23 G13 = stiff_TRI_U_DEFAULT_r1_3 c c3 fn E1 E2 E3 nu12 nu23 nu13 G12 G23 G13 ∧
-    stiff_AXI_A_PIPE_r2_0 c c3 fn E1 E2 E3 nu12 nu23 nu13 G12 G23 G13 = stiff_TRI_U_DEFAULT_r2_0 c c3 fn E1 E2 E3 nu12 nu23 nu13 G12 G23 G13 ∧
-    stiff_AXI_A_PIPE_r2_1 c c3 fn E1 E2 E3 nu12 nu23 nu13 G12 G23 G13 = stiff_TRI_U_DEFAULT_r2_1 c c3 fn E1 E2 E3 nu12 nu23 nu13 G12 G23 G13 ∧
-    stiff_AXI_A_PIPE_r2_2 c c3 fn E1 E2 E3 nu12 nu23 nu13 G12 G23 G13 = stiff_TRI_U_DEFAULT_r2_2 c c3 fn E1 E2 E3 nu12 nu23 nu13 G12 G23 G13 ∧
-    stiff_AXI_A_PIPE_r2_3 c c3 fn E1 E2 E3 nu12 nu23 nu13 G12 G23 G13 = stiff_TRI_U_DEFAULT_r2_3 c c3 fn E1 E2 E3 nu12 nu23 nu13 G12 G23 G13 ∧
-    stiff_AXI_A_PIPE_r3_0 c c3 fn E1 E2 E3 nu12 nu23 nu13 G12 G23 G13 = stiff_TRI_U_DEFAULT_r3_0 c c3 fn E1 E2 E3 nu12 nu23 nu13 G12 G23 G13 ∧
-    stiff_AXI_A_PIPE_r3_1 c c3 fn E1 E2 E3 nu12 nu23 nu13 G12 G23 G13 = stiff_TRI_U_DEFAULT_r3_1 c c3 fn E1 E2 E3 nu12 nu23 nu13 G12 G23 G13 ∧
-    stiff_AXI_A_PIPE_r3_2 c c3 fn E1 E2 E3 nu12 nu23 nu13 G12 G23 G13 = stiff_TRI_U_DEFAULT_r3_2 c c3 fn E1 E2 E3 nu12 nu23 nu13 G12 G23 G13 ∧
-    stiff_AXI_A_PIPE_r3_3 c c3 fn E1 E2 E3 nu12 nu23 nu13 G12 G23 G13 = stiff_TRI_U_DEFAULT_r3_3 c c3 fn E1 E2 E3 nu12 nu23 nu13 G12 G23 G13 := by
-  axes_eq
-
-/-- PlaneStress, UNALTERED, DEFAULT: component (i,j) = component (π i, π j) of the 3D stiffness tensor, π = [0, 1, 2, 3] -/
-theorem stiff_PS_U_DEFAULT (E1 E2 E3 nu12 nu23 nu13 G12 G23 G13 : K) :
-    stiff_PS_U_DEFAULT_r0_0 c c3 fn E1 E2 E3 nu12 nu23 nu13 G12 G23 G13 = stiff_TRI_U_DEFAULT_r0_0 c c3 fn E1 E2 E3 nu12 nu23 nu13 G12 G23 G13 ∧
-    stiff_PS_U_DEFAULT_r0_1 c c3 fn E1 E2 E3 nu12 nu23 nu13 G12 G23 G13 = stiff_TRI_U_DEFAULT_r0_1 c c3 fn E1 E2 E3 nu12 nu23 nu13 G12 G23 G13 ∧
-    stiff_PS_U_DEFAULT_r0_2 c c3 fn E1 E2 E3 nu12 nu23 nu13 G12 G23 G13 = stiff_TRI_U_DEFAULT_r0_2 c c3 fn E1 E2 E3 nu12 nu23 nu13 G12 G23 G13 ∧
-    stiff_PS_U_DEFAULT_r0_3 c c3 fn E1 E2 E3 nu12 nu23 nu13 G12 G23 G13 = stiff_TRI_U_DEFAULT_r0_3 c c3 fn E1 E2 E3 nu12 nu23 nu13 G12 G23 G13 ∧
-    stiff_PS_U_DEFAULT_r1_0 c c3 fn E1 E2 E3 nu12 nu23 nu13 G12 G23 G13 = stiff_TRI_U_DEFAULT_r1_0 c c3 fn E1 E2 E3 nu12 nu23 nu13 G12 G23 G13 ∧
-    stiff_PS_U_DEFAULT_r1_1 c c3 fn E1 E2 E3 nu12 nu23 nu13 G12 G23 G13 = stiff_TRI_U_DEFAULT_r1_1 c c3 fn E1 E2 E3 nu12 nu23 nu13 G12 G23 G13 ∧
-    stiff_PS_U_DEFAULT_r1_2 c c3 fn E1 E2 E3 nu12 nu23 nu13 G12 G23 G13 = stiff_TRI_U_DEFAULT_r1_2 c c3 fn E1 E2 E3 nu12 nu23 nu13 G12 G23 G13 ∧
-    stiff_PS_U_DEFAULT_r1_3 c c3 fn E1 E2 E3 nu12 nu23 nu13 G12 G23 G13 = stiff_TRI_U_DEFAULT_r1_3 c c3 fn E1 E2 E3 nu12 nu23 nu13 G12 G23 G13 ∧
-    stiff_PS_U_DEFAULT_r2_0 c c3 fn E1 E2 E3 nu12 nu23 nu13 G12 G23 G13 = stiff_TRI_U_DEFAULT_r2_0 c c3 fn E1 E2 E3 nu12 nu23 nu13 G12 G23 G13 ∧
-    stiff_PS_U_DEFAULT_r2_1 c c3 fn E1 E2 E3 nu12 nu23 nu13 G12 G23 G13 = stiff_TRI_U_DEFAULT_r2_1 c c3 fn E1 E2 E3 nu12 nu23 nu13 G12 G23 G13 ∧
-    stiff_PS_U_DEFAULT_r2_2 c c3 fn E1 E2 E3 nu12 nu23 nu13 G12 G23 G13 = stiff_TRI_U_DEFAULT_r2_2 c c3 fn E1 E2 E3 nu12 nu23 nu13 G12 G23 G13 ∧
-    stiff_PS_U_DEFAULT_r2_3 c c3 fn E1 E2 E3 nu12 nu23 nu13 G12 G23 G13 = stiff_TRI_U_DEFAULT_r2_3 c c3 fn E1 E2 E3 nu12 nu23 nu13 G12 G23 G13 ∧
-    stiff_PS_U_DEFAULT_r3_0 c c3 fn E1 E2 E3 nu12 nu23 nu13 G12 G23 G13 = stiff_TRI_U_DEFAULT_r3_0 c c3 fn E1 E2 E3 nu12 nu23 nu13 G12 G23 G13 ∧
-    stiff_PS_U_DEFAULT_r3_1 c c3 fn E1 E2 E3 nu12 nu23 nu13 G12 G23 G13 = stiff_TRI_U_DEFAULT_r3_1 c c3 fn E1 E2 E3 nu12 nu23 nu13 G12 G23 G13 ∧
-    stiff_PS_U_DEFAULT_r3_2 c c3 fn E1 E2 E3 nu12 nu23 nu13 G12 G23 G13 = stiff_TRI_U_DEFAULT_r3_2 c c3 fn E1 E2 E3 nu12 nu23 nu13 G12 G23 G13 ∧
-    stiff_PS_U_DEFAULT_r3_3 c c3 fn E1 E2 E3 nu12 nu23 nu13 G12 G23 G13 = stiff_TRI_U_DEFAULT_r3_3 c c3 fn E1 E2 E3 nu12 nu23 nu13 G12 G23 G13 := by
-  axes_eq
-
-/-- PlaneStress, UNALTERED, PIPE: component (i,j) = component (π i, π j) of the 3D stiffness tensor, π = [0, 2, 1, 4] -/
-theorem stiff_PS_U_PIPE (E1 E2 E3 nu12 nu23 nu13 G12 G23 G13 : K) (hE2 : E2 ≠ 0) (hE3 : E3 ≠ 0) :
-    stiff_PS_U_PIPE_r0_0 c c3 fn E1 E2 E3 nu12 nu23 nu13 G12 G23 G13 = stiff_TRI_U_DEFAULT_r0_0 c c3 fn E1 E2 E3 nu12 nu23 nu13 G12 G23 G13 ∧
-    stiff_PS_U_PIPE_r0_1 c c3 fn E1 E2 E3 nu12 nu23 nu13 G12 G23 G13 = stiff_TRI_U_DEFAULT_r0_2 c c3 fn E1 E2 E3 nu12 nu23 nu13 G12 G23 G13 ∧
-    stiff_PS_U_PIPE_r0_2 c c3 fn E1 E2 E3 nu12 nu23 nu13 G12 G23 G13 = stiff_TRI_U_DEFAULT_r0_1 c c3 fn E1 E2 E3 nu12 nu23 nu13 G12 G23 G13 ∧
-    stiff_PS_U_PIPE_r0_3 c c3 fn E1 E2 E3 nu12 nu23 nu13 G12 G23 G13 = stiff_TRI_U_DEFAULT_r0_4 c c3 fn E1 E2 E3 nu12 nu23 nu13 G12 G23 G13 ∧
-    stiff_PS_U_PIPE_r1_0 c c3 fn E1 E2 E3 nu12 nu23 nu13 G12 G23 G13 = stiff_TRI_U_DEFAULT_r2_0 c c3 fn E1 E2 E3 nu12 nu23 nu13 G12 G23 G13 ∧
-    stiff_PS_U_PIPE_r1_1 c c3 fn E1 E2 E3 nu12 nu23 nu13 G12 G23 G13 = stiff_TRI_U_DEFAULT_r2_2 c c3 fn E1 E2 E3 nu12 nu23 nu13 G12 G23 G13 ∧
-    stiff_PS_U_PIPE_r1_2 c c3 fn E1 E2 E3 nu12 nu23 nu13 G12 G23 G13 = stiff_TRI_U_DEFAULT_r2_1 c c3 fn E1 E2 E3 nu12 nu23 nu13 G12 G23 G13 ∧
-    stiff_PS_U_PIPE_r1_3 c c3 fn E1 E2 E3 nu12 nu23 nu13 G12 G23 G13 = stiff_TRI_U_DEFAULT_r2_4 c c3 fn E1 E2 E3 nu12 nu23 nu13 G12 G23 G13 ∧
-    stiff_PS_U_PIPE_r2_0 c c3 fn E1 E2 E3 nu12 nu23 nu13 G12 G23 G13 = stiff_TRI_U_DEFAULT_r1_0 c c3 fn E1 E2 E3 nu12 nu23 nu13 G12 G23 G13 ∧
-    stiff_PS_U_PIPE_r2_1 c c3 fn E1 E2 E3 nu12 nu23 nu13 G12 G23 G13 = stiff_TRI_U_DEFAULT_r1_2 c c3 fn E1 E2 E3 nu12 nu23 nu13 G12 G23 G13 ∧
-    stiff_PS_U_PIPE_r2_2 c c3 fn E1 E2 E3 nu12 nu23 nu13 G12 G23 G13 = stiff_TRI_U_DEFAULT_r1_1 c c3 fn E1 E2 E3 nu12 nu23 nu13 G12 G23 G13 ∧
-    stiff_PS_U_PIPE_r2_3 c c3 fn E1 E2 E3 nu12 nu23 nu13 G12 G23 G13 = stiff_TRI_U_DEFAULT_r1_4 c c3 fn E1 E2 E3 nu12 nu23 nu13 G12 G23 G13 ∧
-    stiff_PS_U_PIPE_r3_0 c c3 fn E1 E2 E3 nu12 nu23 nu13 G12 G23 G13 = stiff_TRI_U_DEFAULT_r4_0 c c3 fn E1 E2 E3 nu12 nu23 nu13 G12 G23 G13 ∧
-    stiff_PS_U_PIPE_r3_1 c c3 fn E1 E2 E3 nu12 nu23 nu13 G12 G23 G13 = stiff_TRI_U_DEFAULT_r4_2 c c3 fn E1 E2 E3 nu12 nu23 nu13 G12 G23 G13 ∧
-    stiff_PS_U_PIPE_r3_2 c c3 fn E1 E2 E3 nu12 nu23 nu13 G12 G23 G13 = stiff_TRI_U_DEFAULT_r4_1 c c3 fn E1 E2 E3 nu12 nu23 nu13 G12 G23 G13 ∧
-    stiff_PS_U_PIPE_r3_3 c c3 fn E1 E2 E3 nu12 nu23 nu13 G12 G23 G13 = stiff_TRI_U_DEFAULT_r4_4 c c3 fn E1 E2 E3 nu12 nu23 nu13 G12 G23 G13 := by
-  stiff_eq hE2 hE3
-
-/-- PlaneStress, ALTERED, DEFAULT: in-plane components = static condensation of the 3D stiffness tensor on the stress-free 3D axis 2 (C_ij − C_ik C_kj / C_kk read through π = [0, 1, 2, 3]), zero row and column for that axis -/
-theorem stiff_PS_A_DEFAULT (E1 E2 E3 nu12 nu23 nu13 G12 G23 G13 : K) :
-    stiff_PS_A_DEFAULT_r0_0 c c3 fn E1 E2 E3 nu12 nu23 nu13 G12 G23 G13 = stiff_TRI_U_DEFAULT_r0_0 c c3 fn E1 E2 E3 nu12 nu23 nu13 G12 G23 G13 - stiff_TRI_U_DEFAULT_r0_2 c c3 fn E1 E2 E3 nu12 nu23 nu13 G12 G23 G13 * (stiff_TRI_U_DEFAULT_r2_0 c c3 fn E1 E2 E3 nu12 nu23 nu13 G12 G23 G13 / stiff_TRI_U_DEFAULT_r2_2 c c3 fn E1 E2 E3 nu12 nu23 nu13 G12 G23 G13) ∧
-    stiff_PS_A_DEFAULT_r0_1 c c3 fn E1 E2 E3 nu12 nu23 nu13 G12 G23 G13 = stiff_TRI_U_DEFAULT_r0_1 c c3 fn E1 E2 E3 nu12 nu23 nu13 G12 G23 G13 - stiff_TRI_U_DEFAULT_r0_2 c c3 fn E1 E2 E3 nu12 nu23 nu13 G12 G23 G13 * (stiff_TRI_U_DEFAULT_r2_1 c c3 fn E1 E2 E3 nu12 nu23 nu13 G12 G23 G13 / stiff_TRI_U_DEFAULT_r2_2 c c3 fn E1 E2 E3 nu12 nu23 nu13 G12 G23 G13) ∧
-    stiff_PS_A_DEFAULT_r0_2 c c3 fn E1 E2 E3 nu12 nu23 nu13 G12 G23 G13 = 0 ∧
-    stiff_PS_A_DEFAULT_r0_3 c c3 fn E1 E2 E3 nu12 nu23 nu13 G12 G23 G13 = 0 ∧
-    stiff_PS_A_DEFAULT_r1_0 c c3 fn E1 E2 E3 nu12 nu23 nu13 G12 G23 G13 = stiff_TRI_U_DEFAULT_r1_0 c c3 fn E1 E2 E3 nu12 nu23 nu13 G12 G23 G13 - stiff_TRI_U_DEFAULT_r1_2 c c3 fn E1 E2 E3 nu12 nu23 nu13 G12 G23 G13 * (stiff_TRI_U_DEFAULT_r2_0 c c3 fn E1 E2 E3 nu12 nu23 nu13 G12 G23 G13 / stiff_TRI_U_DEFAULT_r2_2 c c3 fn E1 E2 E3 nu12 nu23 nu13 G12 G23 G13) ∧
-    stiff_PS_A_DEFAULT_r1_1 c c3 fn E1 E2 E3 nu12 nu23 nu13 G12 G23 G13 = stiff_TRI_U_DEFAULT_r1_1 c c3 fn E1 E2 E3 nu12 nu23 nu13 G12 G23 G13 - stiff_TRI_U_DEFAULT_r1_2 c c3 fn E1 E2 E3 nu12 nu23 nu13 G12 G23 G13 * (stiff_TRI_U_DEFAULT_r2_1 c c3 fn E1 E2 E3 nu12 nu23 nu13 G12 G23 G13 / stiff_TRI_U_DEFAULT_r2_2 c c3 fn E1 E2 E3 nu12 nu23 nu13 G12 G23 G13) ∧
-    stiff_PS_A_DEFAULT_r1_2 c c3 fn E1 E2 E3 nu12 nu23 nu13 G12 G23 G13 = 0 ∧
-    stiff_PS_A_DEFAULT_r1_3 c c3 fn E1 E2 E3 nu12 nu23 nu13 G12 G23 G13 = 0 ∧
-    stiff_PS_A_DEFAULT_r2_0 c c3 fn E1 E2 E3 nu12 nu23 nu13 G12 G23 G13 = 0 ∧
-    stiff_PS_A_DEFAULT_r2_1 c c3 fn E1 E2 E3 nu12 nu23 nu13 G12 G23 G13 = 0 ∧
-    stiff_PS_A_DEFAULT_r2_2 c c3 fn E1 E2 E3 nu12 nu23 nu13 G12 G23 G13 = 0 ∧
-    stiff_PS_A_DEFAULT_r2_3 c c3 fn E1 E2 E3 nu12 nu23 nu13 G12 G23 G13 = 0 ∧
-    stiff_PS_A_DEFAULT_r3_0 c c3 fn E1 E2 E3 nu12 nu23 nu13 G12 G23 G13 = 0 ∧
-    stiff_PS_A_DEFAULT_r3_1 c c3 fn E1 E2 E3 nu12 nu23 nu13 G12 G23 G13 = 0 ∧
-    stiff_PS_A_DEFAULT_r3_2 c c3 fn E1 E2 E3 nu12 nu23 nu13 G12 G23 G13 = 0 ∧
-    stiff_PS_A_DEFAULT_r3_3 c c3 fn E1 E2 E3 nu12 nu23 nu13 G12 G23 G13 = stiff_TRI_U_DEFAULT_r3_3 c c3 fn E1 E2 E3 nu12 nu23 nu13 G12 G23 G13 := by
-  axes_eq
-
-/-- PlaneStress, ALTERED, PIPE: in-plane components = static condensation of the 3D stiffness tensor on the stress-free 3D axis 1 (C_ij − C_ik C_kj / C_kk read through π = [0, 2, 1, 4]), zero row and column for that axis -/
-theorem stiff_PS_A_PIPE (E1 E2 E3 nu12 nu23 nu13 G12 G23 G13 : K) (hE2 : E2 ≠ 0) (hE3 : E3 ≠ 0) :
-    stiff_PS_A_PIPE_r0_0 c c3 fn E1 E2 E3 nu12 nu23 nu13 G12 G23 G13 = stiff_TRI_U_DEFAULT_r0_0 c c3 fn E1 E2 E3 nu12 nu23 nu13 G12 G23 G13 - stiff_TRI_U_DEFAULT_r0_1 c c3 fn E1 E2 E3 nu12 nu23 nu13 G12 G23 G13 * (stiff_TRI_U_DEFAULT_r1_0 c c3 fn E1 E2 E3 nu12 nu23 nu13 G12 G23 G13 / stiff_TRI_U_DEFAULT_r1_1 c c3 fn E1 E2 E3 nu12 nu23 nu13 G12 G23 G13) ∧
-    stiff_PS_A_PIPE_r0_1 c c3 fn E1 E2 E3 nu12 nu23 nu13 G12 G23 G13 = stiff_TRI_U_DEFAULT_r0_2 c c3 fn E1 E2 E3 nu12 nu23 nu13 G12 G23 G13 - stiff_TRI_U_DEFAULT_r0_1 c c3 fn E1 E2 E3 nu12 nu23 nu13 G12 G23 G13 * (stiff_TRI_U_DEFAULT_r1_2 c c3 fn E1 E2 E3 nu12 nu23 nu13 G12 G23 G13 / stiff_TRI_U_DEFAULT_r1_1 c c3 fn E1 E2 E3 nu12 nu23 nu13 G12 G23 G13) ∧
-    stiff_PS_A_PIPE_r0_2 c c3 fn E1 E2 E3 nu12 nu23 nu13 G12 G23 G13 = 0 ∧
-    stiff_PS_A_PIPE_r0_3 c c3 fn E1 E2 E3 nu12 nu23 nu13 G12 G23 G13 = 0 ∧
-    stiff_PS_A_PIPE_r1_0 c c3 fn E1 E2 E3 nu12 nu23 nu13 G12 G23 G13 = stiff_TRI_U_DEFAULT_r2_0 c c3 fn E1 E2 E3 nu12 nu23 nu13 G12 G23 G13 - stiff_TRI_U_DEFAULT_r2_1 c c3 fn E1 E2 E3 nu12 nu23 nu13 G12 G23 G13 * (stiff_TRI_U_DEFAULT_r1_0 c c3 fn E1 E2 E3 nu12 nu23 nu13 G12 G23 G13 / stiff_TRI_U_DEFAULT_r1_1 c c3 fn E1 E2 E3 nu12 nu23 nu13 G12 G23 G13) ∧
-    stiff_PS_A_PIPE_r1_1 c c3 fn E1 E2 E3 nu12 nu23 nu13 G12 G23 G13 = stiff_TRI_U_DEFAULT_r2_2 c c3 fn E1 E2 E3 nu12 nu23 nu13 G12 G23 G13 - stiff_TRI_U_DEFAULT_r2_1 c c3 fn E1 E2 E3 nu12 nu23 nu13 G12 G23 G13 * (stiff_TRI_U_DEFAULT_r1_2 c c3 fn E1 E2 E3 nu12 nu23 nu13 G12 G23 G13 / stiff_TRI_U_DEFAULT_r1_1 c c3 fn E1 E2 E3 nu12 nu23 nu13 G12 G23 G13) ∧
-    stiff_PS_A_PIPE_r1_2 c c3 fn E1 E2 E3 nu12 nu23 nu13 G12 G23 G13 = 0 ∧
-    stiff_PS_A_PIPE_r1_3 c c3 fn E1 E2 E3 nu12 nu23 nu13 G12 G23 G13 = 0 ∧
-    stiff_PS_A_PIPE_r2_0 c c3 fn E1 E2 E3 nu12 nu23 nu13 G12 G23 G13 = 0 ∧
-    stiff_PS_A_PIPE_r2_1 c c3 fn E1 E2 E3 nu12 nu23 nu13 G12 G23 G13 = 0 ∧
-    stiff_PS_A_PIPE_r2_2 c c3 fn E1 E2 E3 nu12 nu23 nu13 G12 G23 G13 = 0 ∧
-    stiff_PS_A_PIPE_r2_3 c c3 fn E1 E2 E3 nu12 nu23 nu13 G12 G23 G13 = 0 ∧
-    stiff_PS_A_PIPE_r3_0 c c3 fn E1 E2 E3 nu12 nu23 nu13 G12 G23 G13 = 0 ∧
-    stiff_PS_A_PIPE_r3_1 c c3 fn E1 E2 E3 nu12 nu23 nu13 G12 G23 G13 = 0 ∧
-    stiff_PS_A_PIPE_r3_2 c c3 fn E1 E2 E3 nu12 nu23 nu13 G12 G23 G13 = 0 ∧
-    stiff_PS_A_PIPE_r3_3 c c3 fn E1 E2 E3 nu12 nu23 nu13 G12 G23 G13 = stiff_TRI_U_DEFAULT_r4_4 c c3 fn E1 E2 E3 nu12 nu23 nu13 G12 G23 G13 := by
-  stiff_eq hE2 hE3
-
-/-- PlaneStrain, UNALTERED, DEFAULT: component (i,j) = component (π i, π j) of the 3D stiffness tensor, π = [0, 1, 2, 3] -/
-theorem stiff_PE_U_DEFAULT (E1 E2 E3 nu12 nu23 nu13 G12 G23 G13 : K) :
-    stiff_PE_U_DEFAULT_r0_0 c c3 fn E1 E2 E3 nu12 nu23 nu13 G12 G23 G13 = stiff_TRI_U_DEFAULT_r0_0 c c3 fn E1 E2 E3 nu12 nu23 nu13 G12 G23 G13 ∧
-    stiff_PE_U_DEFAULT_r0_1 c c3 fn E1 E2 E3 nu12 nu23 nu13 G12 G23 G13 = stiff_TRI_U_DEFAULT_r0_1 c c3 fn E1 E2 E3 nu12 nu23 nu13 G12 G23 G13 ∧
-    stiff_PE_U_DEFAULT_r0_2 c c3 fn E1 E2 E3 nu12 nu23 nu13 G12 G23 G13 = stiff_TRI_U_DEFAULT_r0_2 c c3 fn E1 E2 E3 nu12 nu23 nu13 G12 G23 G13 ∧
-    stiff_PE_U_DEFAULT_r0_3 c c3 fn E1 E2 E3 nu12 nu23 nu13 G12 G23 G13 = stiff_TRI_U_DEFAULT_r0_3 c c3 fn E1 E2 E3 nu12 nu23 nu13 G12 G23 G13 ∧
-    stiff_PE_U_DEFAULT_r1_0 c c3 fn E1 E2 E3 nu12 nu23 nu13 G12 G23 G13 = stiff_TRI_U_DEFAULT_r1_0 c c3 fn E1 E2 E3 nu12 nu23 nu13 G12 G23 G13 ∧
-    stiff_PE_U_DEFAULT_r1_1 c c3 fn E1 E2 E3 nu12 nu23 nu13 G12 G23 G13 = stiff_TRI_U_DEFAULT_r1_1 c c3 fn E1 E2 E3 nu12 nu23 nu13 G12 G23 G13 ∧
-    stiff_PE_U_DEFAULT_r1_2 c c3 fn E1 E2 E3 nu12 nu23 nu13 G12 G23 G13 = stiff_TRI_U_DEFAULT_r1_2 c c3 fn E1 E2 E3 nu12 nu23 nu13 G12 G23 G13 ∧
-    stiff_PE_U_DEFAULT_r1_3 c c3 fn E1 E2 E3 nu12 nu23 nu13 G12 G23 G13 = stiff_TRI_U_DEFAULT_r1_3 c c3 fn E1 E2 E3 nu12 nu23 nu13 G12 G23 G13 ∧
-    stiff_PE_U_DEFAULT_r2_0 c c3 fn E1 E2 E3 nu12 nu23 nu13 G12 G23 G13 = stiff_TRI_U_DEFAULT_r2_0 c c3 fn E1 E2 E3 nu12 nu23 nu13 G12 G23 G13 ∧
-    stiff_PE_U_DEFAULT_r2_1 c c3 fn E1 E2 E3 nu12 nu23 nu13 G12 G23 G13 = stiff_TRI_U_DEFAULT_r2_1 c c3 fn E1 E2 E3 nu12 nu23 nu13 G12 G23 G13 ∧
-    stiff_PE_U_DEFAULT_r2_2 c c3 fn E1 E2 E3 nu12 nu23 nu13 G12 G23 G13 = stiff_TRI_U_DEFAULT_r2_2 c c3 fn E1 E2 E3 nu12 nu23 nu13 G12 G23 G13 ∧
-    stiff_PE_U_DEFAULT_r2_3 c c3 fn E1 E2 E3 nu12 nu23 nu13 G12 G23 G13 = stiff_TRI_U_DEFAULT_r2_3 c c3 fn E1 E2 E3 nu12 nu23 nu13 G12 G23 G13 ∧
-    stiff_PE_U_DEFAULT_r3_0 c c3 fn E1 E2 E3 nu12 nu23 nu13 G12 G23 G13 = stiff_TRI_U_DEFAULT_r3_0 c c3 fn E1 E2 E3 nu12 nu23 nu13 G12 G23 G13 ∧
-    stiff_PE_U_DEFAULT_r3_1 c c3 fn E1 E2 E3 nu12 nu23 nu13 G12 G23 G13 = stiff_TRI_U_DEFAULT_r3_1 c c3 fn E1 E2 E3 nu12 nu23 nu13 G12 G23 G13 ∧
-    stiff_PE_U_DEFAULT_r3_2 c c3 fn E1 E2 E3 nu12 nu23 nu13 G12 G23 G13 = stiff_TRI_U_DEFAULT_r3_2 c c3 fn E1 E2 E3 nu12 nu23 nu13 G12 G23 G13 ∧
-    stiff_PE_U_DEFAULT_r3_3 c c3 fn E1 E2 E3 nu12 nu23 nu13 G12 G23 G13 = stiff_TRI_U_DEFAULT_r3_3 c c3 fn E1 E2 E3 nu12 nu23 nu13 G12 G23 G13 := by
-  axes_eq
-
-/-- PlaneStrain, UNALTERED, PIPE: component (i,j) = component (π i, π j) of the 3D stiffness tensor, π = [0, 2, 1, 4] -/
-theorem stiff_PE_U_PIPE (E1 E2 E3 nu12 nu23 nu13 G12 G23 G13 : K) (hE2 : E2 ≠ 0) (hE3 : E3 ≠ 0) :
-    stiff_PE_U_PIPE_r0_0 c c3 fn E1 E2 E3 nu12 nu23 nu13 G12 G23 G13 = stiff_TRI_U_DEFAULT_r0_0 c c3 fn E1 E2 E3 nu12 nu23 nu13 G12 G23 G13 ∧
-    stiff_PE_U_PIPE_r0_1 c c3 fn E1 E2 E3 nu12 nu23 nu13 G12 G23 G13 = stiff_TRI_U_DEFAULT_r0_2 c c3 fn E1 E2 E3 nu12 nu23 nu13 G12 G23 G13 ∧
-    stiff_PE_U_PIPE_r0_2 c c3 fn E1 E2 E3 nu12 nu23 nu13 G12 G23 G13 = stiff_TRI_U_DEFAULT_r0_1 c c3 fn E1 E2 E3 nu12 nu23 nu13 G12 G23 G13 ∧
-    stiff_PE_U_PIPE_r0_3 c c3 fn E1 E2 E3 nu12 nu23 nu13 G12 G23 G13 = stiff_TRI_U_DEFAULT_r0_4 c c3 fn E1 E2 E3 nu12 nu23 nu13 G12 G23 G13 ∧
-    stiff_PE_U_PIPE_r1_0 c c3 fn E1 E2 E3 nu12 nu23 nu13 G12 G23 G13 = stiff_TRI_U_DEFAULT_r2_0 c c3 fn E1 E2 E3 nu12 nu23 nu13 G12 G23 G13 ∧
-    stiff_PE_U_PIPE_r1_1 c c3 fn E1 E2 E3 nu12 nu23 nu13 G12 G23 G13 = stiff_TRI_U_DEFAULT_r2_2 c c3 fn E1 E2 E3 nu12 nu23 nu13 G12 G23 G13 ∧
-    stiff_PE_U_PIPE_r1_2 c c3 fn E1 E2 E3 nu12 nu23 nu13 G12 G23 G13 = stiff_TRI_U_DEFAULT_r2_1 c c3 fn E1 E2 E3 nu12 nu23 nu13 G12 G23 G13 ∧
-    stiff_PE_U_PIPE_r1_3 c c3 fn E1 E2 E3 nu12 nu23 nu13 G12 G23 G13 = stiff_TRI_U_DEFAULT_r2_4 c c3 fn E1 E2 E3 nu12 nu23 nu13 G12 G23 G13 ∧
-    stiff_PE_U_PIPE_r2_0 c c3 fn E1 E2 E3 nu12 nu23 nu13 G12 G23 G13 = stiff_TRI_U_DEFAULT_r1_0 c c3 fn E1 E2 E3 nu12 nu23 nu13 G12 G23 G13 ∧
-    stiff_PE_U_PIPE_r2_1 c c3 fn E1 E2 E3 nu12 nu23 nu13 G12 G23 G13 = stiff_TRI_U_DEFAULT_r1_2 c c3 fn E1 E2 E3 nu12 nu23 nu13 G12 G23 G13 ∧
-    stiff_PE_U_PIPE_r2_2 c c3 fn E1 E2 E3 nu12 nu23 nu13 G12 G23 G13 = stiff_TRI_U_DEFAULT_r1_1 c c3 fn E1 E2 E3 nu12 nu23 nu13 G12 G23 G13 ∧
-    stiff_PE_U_PIPE_r2_3 c c3 fn E1 E2 E3 nu12 nu23 nu13 G12 G23 G13 = stiff_TRI_U_DEFAULT_r1_4 c c3 fn E1 E2 E3 nu12 nu23 nu13 G12 G23 G13 ∧
-    stiff_PE_U_PIPE_r3_0 c c3 fn E1 E2 E3 nu12 nu23 nu13 G12 G23 G13 = stiff_TRI_U_DEFAULT_r4_0 c c3 fn E1 E2 E3 nu12 nu23 nu13 G12 G23 G13 ∧
-    stiff_PE_U_PIPE_r3_1 c c3 fn E1 E2 E3 nu12 nu23 nu13 G12 G23 G13 = stiff_TRI_U_DEFAULT_r4_2 c c3 fn E1 E2 E3 nu12 nu23 nu13 G12 G23 G13 ∧
-    stiff_PE_U_PIPE_r3_2 c c3 fn E1 E2 E3 nu12 nu23 nu13 G12 G23 G13 = stiff_TRI_U_DEFAULT_r4_1 c c3 fn E1 E2 E3 nu12 nu23 nu13 G12 G23 G13 ∧
-    stiff_PE_U_PIPE_r3_3 c c3 fn E1 E2 E3 nu12 nu23 nu13 G12 G23 G13 = stiff_TRI_U_DEFAULT_r4_4 c c3 fn E1 E2 E3 nu12 nu23 nu13 G12 G23 G13 := by
-  stiff_eq hE2 hE3
-
-/-- PlaneStrain, ALTERED (no alteration for this hypothesis), DEFAULT: component (i,j) = component (π i, π j) of the 3D stiffness tensor, π = [0, 1, 2, 3] -/
-theorem stiff_PE_A_DEFAULT (E1 E2 E3 nu12 nu23 nu13 G12 G23 G13 : K) :
-    stiff_PE_A_DEFAULT_r0_0 c c3 fn E1 E2 E3 nu12 nu23 nu13 G12 G23 G13 = stiff_TRI_U_DEFAULT_r0_0 c c3 fn E1 E2 E3 nu12 nu23 nu13 G12 G23 G13 ∧
-    stiff_PE_A_DEFAULT_r0_1 c c3 fn E1 E2 E3 nu12 nu23 nu13 G12 G23 G13 = stiff_TRI_U_DEFAULT_r0_1 c c3 fn E1 E2 E3 nu12 nu23 nu13 G12 G23 G13 ∧
-    stiff_PE_A_DEFAULT_r0_2 c c3 fn E1 E2 E3 nu12 nu23 nu13 G12 G23 G13 = stiff_TRI_U_DEFAULT_r0_2 c c3 fn E1 E2 E3 nu12 nu23 nu13 G12 G23 G13 ∧
-    stiff_PE_A_DEFAULT_r0_3 c c3 fn E1 E2 E3 nu12 nu23 nu13 G12 G23 G13 = stiff_TRI_U_DEFAULT_r0_3 c c3 fn E1 E2 E3 nu12 nu23 nu13 G12 G23 G13 ∧
-    stiff_PE_A_DEFAULT_r1_0 c c3 fn E1 E2 E3 nu12 nu23 nu13 G12 G23 G13 = stiff_TRI_U_DEFAULT_r1_0 c c3 fn E1 E2 E3 nu12 nu23 nu13 G12 G23 G13 ∧
-    stiff_PE_A_DEFAULT_r1_1 c c3 fn E1 E2 E3 nu12 nu23 nu13 G12 G23 G13 = stiff_TRI_U_DEFAULT_r1_1 c c3 fn E1 E2 E3 nu12 nu23 nu13 G12 G23 G13 ∧
-    stiff_PE_A_DEFAULT_r1_2 c c3 fn E1 E2 E3 nu12 nu23 nu13 G12 G23 G13 = stiff_TRI_U_DEFAULT_r1_2 c c3 fn E1 E2 E3 nu12 nu23 nu13 G12 G23 G13 ∧
-    stiff_PE_A_DEFAULT_r1_3 c c3 fn E1 E2 E3 nu12 nu23 nu13 G12 G23 G13 = stiff_TRI_U_DEFAULT_r1_3 c c3 fn E1 E2 E3 nu12 nu23 nu13 G12 G23 G13 ∧
-    stiff_PE_A_DEFAULT_r2_0 c c3 fn E1 E2 E3 nu12 nu23 nu13 G12 G23 G13 = stiff_TRI_U_DEFAULT_r2_0 c c3 fn E1 E2 E3 nu12 nu23 nu13 G12 G23 G13 ∧
-    stiff_PE_A_DEFAULT_r2_1 c c3 fn E1 E2 E3 nu12 nu23 nu13 G12 G23 G13 = stiff_TRI_U_DEFAULT_r2_1 c c3 fn E1 E2 E3 nu12 nu23 nu13 G12 G23 G13 ∧
-    stiff_PE_A_DEFAULT_r2_2 c c3 fn E1 E2 E3 nu12 nu23 nu13 G12 G23 G13 = stiff_TRI_U_DEFAULT_r2_2 c c3 fn E1 E2 E3 nu12 nu23 nu13 G12 G23 G13 ∧
-    stiff_PE_A_DEFAULT_r2_3 c c3 fn E1 E2 E3 nu12 nu23 nu13 G12 G23 G13 = stiff_TRI_U_DEFAULT_r2_3 c c3 fn E1 E2 E3 nu12 nu23 nu13 G12 G23 G13 ∧
-    stiff_PE_A_DEFAULT_r3_0 c c3 fn E1 E2 E3 nu12 nu23 nu13 G12 G23 G13 = stiff_TRI_U_DEFAULT_r3_0 c c3 fn E1 E2 E3 nu12 nu23 nu13 G12 G23 G13 ∧
-    stiff_PE_A_DEFAULT_r3_1 c c3 fn E1 E2 E3 nu12 nu23 nu13 G12 G23 G13 = stiff_TRI_U_DEFAULT_r3_1 c c3 fn E1 E2 E3 nu12 nu23 nu13 G12 G23 G13 ∧
-    stiff_PE_A_DEFAULT_r3_2 c c3 fn E1 E2 E3 nu12 nu23 nu13 G12 G23 G13 = stiff_TRI_U_DEFAULT_r3_2 c c3 fn E1 E2 E3 nu12 nu23 nu13 G12 G23 G13 ∧
-    stiff_PE_A_DEFAULT_r3_3 c c3 fn E1 E2 E3 nu12 nu23 nu13 G12 G23 G13 = stiff_TRI_U_DEFAULT_r3_3 c c3 fn E1 E2 E3 nu12 nu23 nu13 G12 G23 G13 := by
-  axes_eq
-
-/-- PlaneStrain, ALTERED (no alteration for this hypothesis), PIPE: component (i,j) = component (π i, π j) of the 3D stiffness tensor, π = [0, 2, 1, 4] -/
-theorem stiff_PE_A_PIPE (E1 E2 E3 nu12 nu23 nu13 G12 G23 G13 : K) (hE2 : E2 ≠ 0) (hE3 : E3 ≠ 0) :
-    stiff_PE_A_PIPE_r0_0 c c3 fn E1 E2 E3 nu12 nu23 nu13 G12 G23 G13 = stiff_TRI_U_DEFAULT_r0_0 c c3 fn E1 E2 E3 nu12 nu23 nu13 G12 G23 G13 ∧
-    stiff_PE_A_PIPE_r0_1 c c3 fn E1 E2 E3 nu12 nu23 nu13 G12 G23 G13 = stiff_TRI_U_DEFAULT_r0_2 c c3 fn E1 E2 E3 nu12 nu23 nu13 G12 G23 G13 ∧
-    stiff_PE_A_PIPE_r0_2 c c3 fn E1 E2 E3 nu12 nu23 nu13 G12 G23 G13 = stiff_TRI_U_DEFAULT_r0_1 c c3 fn E1 E2 E3 nu12 nu23 nu13 G12 G23 G13 ∧
-    stiff_PE_A_PIPE_r0_3 c c3 fn E1 E2 E3 nu12 nu23 nu13 G12 G23 G13 = stiff_TRI_U_DEFAULT_r0_4 c c3 fn E1 E2 E3 nu12 nu23 nu13 G12 G23 G13 ∧
-    stiff_PE_A_PIPE_r1_0 c c3 fn E1 E2 E3 nu12 nu23 nu13 G12 G23 G13 = stiff_TRI_U_DEFAULT_r2_0 c c3 fn E1 E2 E3 nu12 nu23 nu13 G12 G23 G13 ∧
-    stiff_PE_A_PIPE_r1_1 c c3 fn E1 E2 E3 nu12 nu23 nu13 G12 G23 G13 = stiff_TRI_U_DEFAULT_r2_2 c c3 fn E1 E2 E3 nu12 nu23 nu13 G12 G23 G13 ∧
-    stiff_PE_A_PIPE_r1_2 c c3 fn E1 E2 E3 nu12 nu23 nu13 G12 G23 G13 = stiff_TRI_U_DEFAULT_r2_1 c c3 fn E1 E2 E3 nu12 nu23 nu13 G12 G23 G13 ∧
-    stiff_PE_A_PIPE_r1_3 c c3 fn E1 E2 E3 nu12 nu23 nu13 G12 G23 G13 = stiff_TRI_U_DEFAULT_r2_4 c c3 fn E1 E2 E3 nu12 nu23 nu13 G12 G23 G13 ∧
-    stiff_PE_A_PIPE_r2_0 c c3 fn E1 E2 E3 nu12 nu23 nu13 G12 G23 G13 = stiff_TRI_U_DEFAULT_r1_0 c c3 fn E1 E2 E3 nu12 nu23 nu13 G12 G23 G13 ∧
-    stiff_PE_A_PIPE_r2_1 c c3 fn E1 E2 E3 nu12 nu23 nu13 G12 G23 G13 = stiff_TRI_U_DEFAULT_r1_2 c c3 fn E1 E2 E3 nu12 nu23 nu13 G12 G23 G13 ∧
-    stiff_PE_A_PIPE_r2_2 c c3 fn E1 E2 E3 nu12 nu23 nu13 G12 G23 G13 = stiff_TRI_U_DEFAULT_r1_1 c c3 fn E1 E2 E3 nu12 nu23 nu13 G12 G23 G13 ∧
-    stiff_PE_A_PIPE_r2_3 c c3 fn E1 E2 E3 nu12 nu23 nu13 G12 G23 G13 = stiff_TRI_U_DEFAULT_r1_4 c c3 fn E1 E2 E3 nu12 nu23 nu13 G12 G23 G13 ∧
-    stiff_PE_A_PIPE_r3_0 c c3 fn E1 E2 E3 nu12 nu23 nu13 G12 G23 G13 = stiff_TRI_U_DEFAULT_r4_0 c c3 fn E1 E2 E3 nu12 nu23 nu13 G12 G23 G13 ∧
-    stiff_PE_A_PIPE_r3_1 c c3 fn E1 E2 E3 nu12 nu23 nu13 G12 G23 G13 = stiff_TRI_U_DEFAULT_r4_2 c c3 fn E1 E2 E3 nu12 nu23 nu13 G12 G23 G13 ∧
-    stiff_PE_A_PIPE_r3_2 c c3 fn E1 E2 E3 nu12 nu23 nu13 G12 G23 G13 = stiff_TRI_U_DEFAULT_r4_1 c c3 fn E1 E2 E3 nu12 nu23 nu13 G12 G23 G13 ∧
-    stiff_PE_A_PIPE_r3_3 c c3 fn E1 E2 E3 nu12 nu23 nu13 G12 G23 G13 = stiff_TRI_U_DEFAULT_r4_4 c c3 fn E1 E2 E3 nu12 nu23 nu13 G12 G23 G13 := by
-  stiff_eq hE2 hE3
-
-/-- GeneralisedPlaneStrain, UNALTERED, DEFAULT: component (i,j) = component (π i, π j) of the 3D stiffness tensor, π = [0, 1, 2, 3] -/
-theorem stiff_GPE_U_DEFAULT (E1 E2 E3 nu12 nu23 nu13 G12 G23 G13 : K) :
-    stiff_GPE_U_DEFAULT_r0_0 c c3 fn E1 E2 E3 nu12 nu23 nu13 G12 G23 G13 = stiff_TRI_U_DEFAULT_r0_0 c c3 fn E1 E2 E3 nu12 nu23 nu13 G12 G23 G13 ∧
-    stiff_GPE_U_DEFAULT_r0_1 c c3 fn E1 E2 E3 nu12 nu23 nu13 G12 G23 G13 = stiff_TRI_U_DEFAULT_r0_1 c c3 fn E1 E2 E3 nu12 nu23 nu13 G12 G23 G13 ∧
-    stiff_GPE_U_DEFAULT_r0_2 c c3 fn E1 E2 E3 nu12 nu23 nu13 G12 G23 G13 = stiff_TRI_U_DEFAULT_r0_2 c c3 fn E1 E2 E3 nu12 nu23 nu13 G12 G23 G13 ∧
-    stiff_GPE_U_DEFAULT_r0_3 c c3 fn E1 E2 E3 nu12 nu23 nu13 G12 G23 G13 = stiff_TRI_U_DEFAULT_r0_3 c c3 fn E1 E2 E3 nu12 nu23 nu13 G12 G23 G13 ∧
-    stiff_GPE_U_DEFAULT_r1_0 c c3 fn E1 E2 E3 nu12 nu23 nu13 G12 G23 G13 = stiff_TRI_U_DEFAULT_r1_0 c c3 fn E1 E2 E3 nu12 nu23 nu13 G12 G23 G13 ∧
-    stiff_GPE_U_DEFAULT_r1_1 c c3 fn E1 E2 E3 nu12 nu23 nu13 G12 G23 G13 = stiff_TRI_U_DEFAULT_r1_1 c c3 fn E1 E2 E3 nu12 nu23 nu13 G12 G23 G13 ∧
-    stiff_GPE_U_DEFAULT_r1_2 c c3 fn E1 E2 E3 nu12 nu23 nu13 G12 G23 G13 = stiff_TRI_U_DEFAULT_r1_2 c c3 fn E1 E2 E3 nu12 nu23 nu13 G12 G23 G13 ∧
-    stiff_GPE_U_DEFAULT_r1_3 c c3 fn E1 E2 E3 nu12 nu23 nu13 G12 G23 G13 = stiff_TRI_U_DEFAULT_r1_3 c c3 fn E1 E2 E3 nu12 nu23 nu13 G12 G23 G13 ∧
-    stiff_GPE_U_DEFAULT_r2_0 c c3 fn E1 E2 E3 nu12 nu23 nu13 G12 G23 G13 = stiff_TRI_U_DEFAULT_r2_0 c c3 fn E1 E2 E3 nu12 nu23 nu13 G12 G23 G13 ∧
-    stiff_GPE_U_DEFAULT_r2_1 c c3 fn E1 E2 E3 nu12 nu23 nu13 G12 G23 G13 = stiff_TRI_U_DEFAULT_r2_1 c c3 fn E1 E2 E3 nu12 nu23 nu13 G12 G23 G13 ∧
-    stiff_GPE_U_DEFAULT_r2_2 c c3 fn E1 E2 E3 nu12 nu23 nu13 G12 G23 G13 = stiff_TRI_U_DEFAULT_r2_2 c c3 fn E1 E2 E3 nu12 nu23 nu13 G12 G23 G13 ∧
-    stiff_GPE_U_DEFAULT_r2_3 c c3 fn E1 E2 E3 nu12 nu23 nu13 G12 G23 G13 = stiff_TRI_U_DEFAULT_r2_3 c c3 fn E1 E2 E3 nu12 nu23 nu13 G12 G23 G13 ∧
-    stiff_GPE_U_DEFAULT_r3_0 c c3 fn E1 E2 E3 nu12 nu23 nu13 G12 G23 G13 = stiff_TRI_U_DEFAULT_r3_0 c c3 fn E1 E2 E3 nu12 nu23 nu13 G12 G23 G13 ∧
-    stiff_GPE_U_DEFAULT_r3_1 c c3 fn E1 E2 E3 nu12 nu23 nu13 G12 G23 G13 = stiff_TRI_U_DEFAULT_r3_1 c c3 fn E1 E2 E3 nu12 nu23 nu13 G12 G23 G13 ∧
-    stiff_GPE_U_DEFAULT_r3_2 c c3 fn E1 E2 E3 nu12 nu23 nu13 G12 G23 G13 = stiff_TRI_U_DEFAULT_r3_2 c c3 fn E1 E2 E3 nu12 nu23 nu13 G12 G23 G13 ∧
-    stiff_GPE_U_DEFAULT_r3_3 c c3 fn E1 E2 E3 nu12 nu23 nu13 G12 G23 G13 = stiff_TRI_U_DEFAULT_r3_3 c c3 fn E1 E2 E3 nu12 nu23 nu13 G12 G23 G13 := by
-  axes_eq
-
-/-- GeneralisedPlaneStrain, UNALTERED, PIPE: component (i,j) = component (π i, π j) of the 3D stiffness tensor, π = [0, 2, 1, 4] -/
-theorem stiff_GPE_U_PIPE (E1 E2 E3 nu12 nu23 nu13 G12 G23 G13 : K) (hE2 : E2 ≠ 0) (hE3 : E3 ≠ 0) :
-    stiff_GPE_U_PIPE_r0_0 c c3 fn E1 E2 E3 nu12 nu23 nu13 G12 G23 G13 = stiff_TRI_U_DEFAULT_r0_0 c c3 fn E1 E2 E3 nu12 nu23 nu13 G12 G23 G13 ∧
-    stiff_GPE_U_PIPE_r0_1 c c3 fn E1 E2 E3 nu12 nu23 nu13 G12 G23 G13 = stiff_TRI_U_DEFAULT_r0_2 c c3 fn E1 E2 E3 nu12 nu23 nu13 G12 G23 G13 ∧
-    stiff_GPE_U_PIPE_r0_2 c c3 fn E1 E2 E3 nu12 nu23 nu13 G12 G23 G13 = stiff_TRI_U_DEFAULT_r0_1 c c3 fn E1 E2 E3 nu12 nu23 nu13 G12 G23 G13 ∧
-    stiff_GPE_U_PIPE_r0_3 c c3 fn E1 E2 E3 nu12 nu23 nu13 G12 G23 G13 = stiff_TRI_U_DEFAULT_r0_4 c c3 fn E1 E2 E3 nu12 nu23 nu13 G12 G23 G13 ∧
-    stiff_GPE_U_PIPE_r1_0 c c3 fn E1 E2 E3 nu12 nu23 nu13 G12 G23 G13 = stiff_TRI_U_DEFAULT_r2_0 c c3 fn E1 E2 E3 nu12 nu23 nu13 G12 G23 G13 ∧
-    stiff_GPE_U_PIPE_r1_1 c c3 fn E1 E2 E3 nu12 nu23 nu13 G12 G23 G13 = stiff_TRI_U_DEFAULT_r2_2 c c3 fn E1 E2 E3 nu12 nu23 nu13 G12 G23 G13 ∧
-    stiff_GPE_U_PIPE_r1_2 c c3 fn E1 E2 E3 nu12 nu23 nu13 G12 G23 G13 = stiff_TRI_U_DEFAULT_r2_1 c c3 fn E1 E2 E3 nu12 nu23 nu13 G12 G23 G13 ∧
-    stiff_GPE_U_PIPE_r1_3 c c3 fn E1 E2 E3 nu12 nu23 nu13 G12 G23 G13 = stiff_TRI_U_DEFAULT_r2_4 c c3 fn E1 E2 E3 nu12 nu23 nu13 G12 G23 G13 ∧
-    stiff_GPE_U_PIPE_r2_0 c c3 fn E1 E2 E3 nu12 nu23 nu13 G12 G23 G13 = stiff_TRI_U_DEFAULT_r1_0 c c3 fn E1 E2 E3 nu12 nu23 nu13 G12 G23 G13 ∧
-    stiff_GPE_U_PIPE_r2_1 c c3 fn E1 E2 E3 nu12 nu23 nu13 G12 G23 G13 = stiff_TRI_U_DEFAULT_r1_2 c c3 fn E1 E2 E3 nu12 nu23 nu13 G12 G23 G13 ∧
-    stiff_GPE_U_PIPE_r2_2 c c3 fn E1 E2 E3 nu12 nu23 nu13 G12 G23 G13 = stiff_TRI_U_DEFAULT_r1_1 c c3 fn E1 E2 E3 nu12 nu23 nu13 G12 G23 G13 ∧
-    stiff_GPE_U_PIPE_r2_3 c c3 fn E1 E2 E3 nu12 nu23 nu13 G12 G23 G13 = stiff_TRI_U_DEFAULT_r1_4 c c3 fn E1 E2 E3 nu12 nu23 nu13 G12 G23 G13 ∧
-    stiff_GPE_U_PIPE_r3_0 c c3 fn E1 E2 E3 nu12 nu23 nu13 G12 G23 G13 = stiff_TRI_U_DEFAULT_r4_0 c c3 fn E1 E2 E3 nu12 nu23 nu13 G12 G23 G13 ∧
-    stiff_GPE_U_PIPE_r3_1 c c3 fn E1 E2 E3 nu12 nu23 nu13 G12 G23 G13 = stiff_TRI_U_DEFAULT_r4_2 c c3 fn E1 E2 E3 nu12 nu23 nu13 G12 G23 G13 ∧
-    stiff_GPE_U_PIPE_r3_2 c c3 fn E1 E2 E3 nu12 nu23 nu13 G12 G23 G13 = stiff_TRI_U_DEFAULT_r4_1 c c3 fn E1 E2 E3 nu12 nu23 nu13 G12 G23 G13 ∧
-    stiff_GPE_U_PIPE_r3_3 c c3 fn E1 E2 E3 nu12 nu23 nu13 G12 G23 G13 = stiff_TRI_U_DEFAULT_r4_4 c c3 fn E1 E2 E3 nu12 nu23 nu13 G12 G23 G13 := by
-  stiff_eq hE2 hE3
-
-/-- GeneralisedPlaneStrain, ALTERED (no alteration for this hypothesis), DEFAULT: component (i,j) = component (π i, π j) of the 3D stiffness tensor, π = [0, 1, 2, 3] -/
-theorem stiff_GPE_A_DEFAULT (E1 E2 E3 nu12 nu23 nu13 G12 G23 G13 : K) :
-    stiff_GPE_A_DEFAULT_r0_0 c c3 fn E1 E2 E3 nu12 nu23 nu13 G12 G23 G13 = stiff_TRI_U_DEFAULT_r0_0 c c3 fn E1 E2 E3 nu12 nu23 nu13 G12 G23 G13 ∧
-    stiff_GPE_A_DEFAULT_r0_1 c c3 fn E1 E2 E3 nu12 nu23 nu13 G12 G23 G13 = stiff_TRI_U_DEFAULT_r0_1 c c3 fn E1 E2 E3 nu12 nu23 nu13 G12 G23 G13 ∧
-    stiff_GPE_A_DEFAULT_r0_2 c c3 fn E1 E2 E3 nu12 nu23 nu13 G12 G23 G13 = stiff_TRI_U_DEFAULT_r0_2 c c3 fn E1 E2 E3 nu12 nu23 nu13 G12 G23 G13 ∧
-    stiff_GPE_A_DEFAULT_r0_3 c c3 fn E1 E2 E3 nu12 nu23 nu13 G12 G23 G13 = stiff_TRI_U_DEFAULT_r0_3 c c3 fn E1 E2 E3 nu12 nu23 nu13 G12 G23 G13 ∧
-    stiff_GPE_A_DEFAULT_r1_0 c c3 fn E1 E2 E3 nu12 nu23 nu13 G12 G23 G13 = stiff_TRI_U_DEFAULT_r1_0 c c3 fn E1 E2 E3 nu12 nu23 nu13 G12 G23 G13 ∧
-    stiff_GPE_A_DEFAULT_r1_1 c c3 fn E1 E2 E3 nu12 nu23 nu13 G12 G23 G13 = stiff_TRI_U_DEFAULT_r1_1 c c3 fn E1 E2 E3 nu12 nu23 nu13 G12 G23 G13 ∧
-    stiff_GPE_A_DEFAULT_r1_2 c c3 fn E1 E2 E3 nu12 nu23 nu13 G12 G23 G13 = stiff_TRI_U_DEFAULT_r1_2 c c3 fn E1 E2 E3 nu12 nu23 nu13 G12 G23 G13 ∧
-    stiff_GPE_A_DEFAULT_r1_3 c c3 fn E1 E2 E3 nu12 nu23 nu13 G12 G23 G13 = stiff_TRI_U_DEFAULT_r1_3 c c3 fn E1 E2 E3 nu12 nu23 nu13 G12 G23 G13 ∧
-    stiff_GPE_A_DEFAULT_r2_0 c c3 fn E1 E2 E3 nu12 nu23 nu13 G12 G23 G13 = stiff_TRI_U_DEFAULT_r2_0 c c3 fn E1 E2 E3 nu12 nu23 nu13 G12 G23 G13 ∧
-    stiff_GPE_A_DEFAULT_r2_1 c c3 fn E1 E2 E3 nu12 nu23 nu13 G12 G23 G13 = stiff_TRI_U_DEFAULT_r2_1 c c3 fn E1 E2 E3 nu12 nu23 nu13 G12 G23 G13 ∧
-    stiff_GPE_A_DEFAULT_r2_2 c c3 fn E1 E2 E3 nu12 nu23 nu13 G12 G23 G13 = stiff_TRI_U_DEFAULT_r2_2 c c3 fn E1 E2 E3 nu12 nu23 nu13 G12 G23 G13 ∧
-    stiff_GPE_A_DEFAULT_r2_3 c c3 fn E1 E2 E3 nu12 nu23 nu13 G12 G23 G13 = stiff_TRI_U_DEFAULT_r2_3 c c3 fn E1 E2 E3 nu12 nu23 nu13 G12 G23 G13 ∧
-    stiff_GPE_A_DEFAULT_r3_0 c c3 fn E1 E2 E3 nu12 nu23 nu13 G12 G23 G13 = stiff_TRI_U_DEFAULT_r3_0 c c3 fn E1 E2 E3 nu12 nu23 nu13 G12 G23 G13 ∧
-    stiff_GPE_A_DEFAULT_r3_1 c c3 fn E1 E2 E3 nu12 nu23 nu13 G12 G23 G13 = stiff_TRI_U_DEFAULT_r3_1 c c3 fn E1 E2 E3 nu12 nu23 nu13 G12 G23 G13 ∧
-    stiff_GPE_A_DEFAULT_r3_2 c c3 fn E1 E2 E3 nu12 nu23 nu13 G12 G23 G13 = stiff_TRI_U_DEFAULT_r3_2 c c3 fn E1 E2 E3 nu12 nu23 nu13 G12 G23 G13 ∧
-    stiff_GPE_A_DEFAULT_r3_3 c c3 fn E1 E2 E3 nu12 nu23 nu13 G12 G23 G13 = stiff_TRI_U_DEFAULT_r3_3 c c3 fn E1 E2 E3 nu12 nu23 nu13 G12 G23 G13 := by
-  axes_eq
-
-/-- GeneralisedPlaneStrain, ALTERED (no alteration for this hypothesis), PIPE: component (i,j) = component (π i, π j) of the 3D stiffness tensor, π = [0, 2, 1, 4] -/
-theorem stiff_GPE_A_PIPE (E1 E2 E3 nu12 nu23 nu13 G12 G23 G13 : K) (hE2 : E2 ≠ 0) (hE3 : E3 ≠ 0) :
-    stiff_GPE_A_PIPE_r0_0 c c3 fn E1 E2 E3 nu12 nu23 nu13 G12 G23 G13 = stiff_TRI_U_DEFAULT_r0_0 c c3 fn E1 E2 E3 nu12 nu23 nu13 G12 G23 G13 ∧
-    stiff_GPE_A_PIPE_r0_1 c c3 fn E1 E2 E3 nu12 nu23 nu13 G12 G23 G13 = stiff_TRI_U_DEFAULT_r0_2 c c3 fn E1 E2 E3 nu12 nu23 nu13 G12 G23 G13 ∧
-    stiff_GPE_A_PIPE_r0_2 c c3 fn E1 E2 E3 nu12 nu23 nu13 G12 G23 G13 = stiff_TRI_U_DEFAULT_r0_1 c c3 fn E1 E2 E3 nu12 nu23 nu13 G12 G23 G13 ∧
-    stiff_GPE_A_PIPE_r0_3 c c3 fn E1 E2 E3 nu12 nu23 nu13 G12 G23 G13 = stiff_TRI_U_DEFAULT_r0_4 c c3 fn E1 E2 E3 nu12 nu23 nu13 G12 G23 G13 ∧
-    stiff_GPE_A_PIPE_r1_0 c c3 fn E1 E2 E3 nu12 nu23 nu13 G12 G23 G13 = stiff_TRI_U_DEFAULT_r2_0 c c3 fn E1 E2 E3 nu12 nu23 nu13 G12 G23 G13 ∧
-    stiff_GPE_A_PIPE_r1_1 c c3 fn E1 E2 E3 nu12 nu23 nu13 G12 G23 G13 = stiff_TRI_U_DEFAULT_r2_2 c c3 fn E1 E2 E3 nu12 nu23 nu13 G12 G23 G13 ∧
-    stiff_GPE_A_PIPE_r1_2 c c3 fn E1 E2 E3 nu12 nu23 nu13 G12 G23 G13 = stiff_TRI_U_DEFAULT_r2_1 c c3 fn E1 E2 E3 nu12 nu23 nu13 G12 G23 G13 ∧
-    stiff_GPE_A_PIPE_r1_3 c c3 fn E1 E2 E3 nu12 nu23 nu13 G12 G23 G13 = stiff_TRI_U_DEFAULT_r2_4 c c3 fn E1 E2 E3 nu12 nu23 nu13 G12 G23 G13 ∧
-    stiff_GPE_A_PIPE_r2_0 c c3 fn E1 E2 E3 nu12 nu23 nu13 G12 G23 G13 = stiff_TRI_U_DEFAULT_r1_0 c c3 fn E1 E2 E3 nu12 nu23 nu13 G12 G23 G13 ∧
-    stiff_GPE_A_PIPE_r2_1 c c3 fn E1 E2 E3 nu12 nu23 nu13 G12 G23 G13 = stiff_TRI_U_DEFAULT_r1_2 c c3 fn E1 E2 E3 nu12 nu23 nu13 G12 G23 G13 ∧
-    stiff_GPE_A_PIPE_r2_2 c c3 fn E1 E2 E3 nu12 nu23 nu13 G12 G23 G13 = stiff_TRI_U_DEFAULT_r1_1 c c3 fn E1 E2 E3 nu12 nu23 nu13 G12 G23 G13 ∧
-    stiff_GPE_A_PIPE_r2_3 c c3 fn E1 E2 E3 nu12 nu23 nu13 G12 G23 G13 = stiff_TRI_U_DEFAULT_r1_4 c c3 fn E1 E2 E3 nu12 nu23 nu13 G12 G23 G13 ∧
-    stiff_GPE_A_PIPE_r3_0 c c3 fn E1 E2 E3 nu12 nu23 nu13 G12 G23 G13 = stiff_TRI_U_DEFAULT_r4_0 c c3 fn E1 E2 E3 nu12 nu23 nu13 G12 G23 G13 ∧
-    stiff_GPE_A_PIPE_r3_1 c c3 fn E1 E2 E3 nu12 nu23 nu13 G12 G23 G13 = stiff_TRI_U_DEFAULT_r4_2 c c3 fn E1 E2 E3 nu12 nu23 nu13 G12 G23 G13 ∧
-    stiff_GPE_A_PIPE_r3_2 c c3 fn E1 E2 E3 nu12 nu23 nu13 G12 G23 G13 = stiff_TRI_U_DEFAULT_r4_1 c c3 fn E1 E2 E3 nu12 nu23 nu13 G12 G23 G13 ∧
-    stiff_GPE_A_PIPE_r3_3 c c3 fn E1 E2 E3 nu12 nu23 nu13 G12 G23 G13 = stiff_TRI_U_DEFAULT_r4_4 c c3 fn E1 E2 E3 nu12 nu23 nu13 G12 G23 G13 := by
-  stiff_eq hE2 hE3
-
-/-- Tridimensional, UNALTERED, PIPE: component (i,j) = component (π i, π j) of the 3D stiffness tensor, π = [0, 1, 2, 3, 4, 5] -/
-theorem stiff_TRI_U_PIPE (E1 E2 E3 nu12 nu23 nu13 G12 G23 G13 : K) :
-    stiff_TRI_U_PIPE_r0_0 c c3 fn E1 E2 E3 nu12 nu23 nu13 G12 G23 G13 = stiff_TRI_U_DEFAULT_r0_0 c c3 fn E1 E2 E3 nu12 nu23 nu13 G12 G23 G13 ∧
-    stiff_TRI_U_PIPE_r0_1 c c3 fn E1 E2 E3 nu12 nu23 nu13 G12 G23 G13 = stiff_TRI_U_DEFAULT_r0_1 c c3 fn E1 E2 E3 nu12 nu23 nu13 G12 G23 G13 ∧
-    stiff_TRI_U_PIPE_r0_2 c c3 fn E1 E2 E3 nu12 nu23 nu13 G12 G23 G13 = stiff_TRI_U_DEFAULT_r0_2 c c3 fn E1 E2 E3 nu12 nu23 nu13 G12 G23 G13 ∧
-    stiff_TRI_U_PIPE_r0_3 c c3 fn E1 E2 E3 nu12 nu23 nu13 G12 G23 G13 = stiff_TRI_U_DEFAULT_r0_3 c c3 fn E1 E2 E3 nu12 nu23 nu13 G12 G23 G13 ∧
-    stiff_TRI_U_PIPE_r0_4 c c3 fn E1 E2 E3 nu12 nu23 nu13 G12 G23 G13 = stiff_TRI_U_DEFAULT_r0_4 c c3 fn E1 E2 E3 nu12 nu23 nu13 G12 G23 G13 ∧
-    stiff_TRI_U_PIPE_r0_5 c c3 fn E1 E2 E3 nu12 nu23 nu13 G12 G23 G13 = stiff_TRI_U_DEFAULT_r0_5 c c3 fn E1 E2 E3 nu12 nu23 nu13 G12 G23 G13 ∧
-    stiff_TRI_U_PIPE_r1_0 c c3 fn E1 E2 E3 nu12 nu23 nu13 G12 G23 G13 = stiff_TRI_U_DEFAULT_r1_0 c c3 fn E1 E2 E3 nu12 nu23 nu13 G12 G23 G13 ∧
-    stiff_TRI_U_PIPE_r1_1 c c3 fn E1 E2 E3 nu12 nu23 nu13 G12 G23 G13 = stiff_TRI_U_DEFAULT_r1_1 c c3 fn E1 E2 E3 nu12 nu23 nu13 G12 G23 G13 ∧
-    stiff_TRI_U_PIPE_r1_2 c c3 fn E1 E2 E3 nu12 nu23 nu13 G12 G23 G13 = stiff_TRI_U_DEFAULT_r1_2 c c3 fn E1 E2 E3 nu12 nu23 nu13 G12 G23 G13 ∧
-    stiff_TRI_U_PIPE_r1_3 c c3 fn E1 E2 E3 nu12 nu23 nu13 G12 G23 G13 = stiff_TRI_U_DEFAULT_r1_3 c c3 fn E1 E2 E3 nu12 nu23 nu13 G12 G23 G13 ∧
-    stiff_TRI_U_PIPE_r1_4 c c3 fn E1 E2 E3 nu12 nu23 nu13 G12 G23 G13 = stiff_TRI_U_DEFAULT_r1_4 c c3 fn E1 E2 E3 nu12 nu23 nu13 G12 G23 G13 ∧
-    stiff_TRI_U_PIPE_r1_5 c c3 fn E1 E2 E3 nu12 nu23 nu13 G12 G23 G13 = stiff_TRI_U_DEFAULT_r1_5 c c3 fn E1 E2 E3 nu12 nu23 nu13 G12 G23 G13 ∧
-    stiff_TRI_U_PIPE_r2_0 c c3 fn E1 E2 E3 nu12 nu23 nu13 G12 G23 G13 = stiff_TRI_U_DEFAULT_r2_0 c c3 fn E1 E2 E3 nu12 nu23 nu13 G12 G23 G13 ∧
-    stiff_TRI_U_PIPE_r2_1 c c3 fn E1 E2 E3 nu12 nu23 nu13 G12 G23 G13 = stiff_TRI_U_DEFAULT_r2_1 c c3 fn E1 E2 E3 nu12 nu23 nu13 G12 G23 G13 ∧
-    stiff_TRI_U_PIPE_r2_2 c c3 fn E1 E2 E3 nu12 nu23 nu13 G12 G23 G13 = stiff_TRI_U_DEFAULT_r2_2 c c3 fn E1 E2 E3 nu12 nu23 nu13 G12 G23 G13 ∧
-    stiff_TRI_U_PIPE_r2_3 c c3 fn E1 E2 E3 nu12 nu23 nu13 G12 G23 G13 = stiff_TRI_U_DEFAULT_r2_3 c c3 fn E1 E2 E3 nu12 nu23 nu13 G12 G23 G13 ∧
-    stiff_TRI_U_PIPE_r2_4 c c3 fn E1 E2 E3 nu12 nu23 nu13 G12 G23 G13 = stiff_TRI_U_DEFAULT_r2_4 c c3 fn E1 E2 E3 nu12 nu23 nu13 G12 G23 G13 ∧
-    stiff_TRI_U_PIPE_r2_5 c c3 fn E1 E2 E3 nu12 nu23 nu13 G12 G23 G13 = stiff_TRI_U_DEFAULT_r2_5 c c3 fn E1 E2 E3 nu12 nu23 nu13 G12 G23 G13 ∧
-    stiff_TRI_U_PIPE_r3_0 c c3 fn E1 E2 E3 nu12 nu23 nu13 G12 G23 G13 = stiff_TRI_U_DEFAULT_r3_0 c c3 fn E1 E2 E3 nu12 nu23 nu13 G12 G23 G13 ∧
-    stiff_TRI_U_PIPE_r3_1 c c3 fn E1 E2 E3 nu12 nu23 nu13 G12 G23 G13 = stiff_TRI_U_DEFAULT_r3_1 c c3 fn E1 E2 E3 nu12 nu23 nu13 G12 G23 G13 ∧
-    stiff_TRI_U_PIPE_r3_2 c c3 fn E1 E2 E3 nu12 nu23 nu13 G12 G23 G13 = stiff_TRI_U_DEFAULT_r3_2 c c3 fn E1 E2 E3 nu12 nu23 nu13 G12 G23 G13 ∧
-    stiff_TRI_U_PIPE_r3_3 c c3 fn E1 E2 E3 nu12 nu23 nu13 G12 G23 G13 = stiff_TRI_U_DEFAULT_r3_3 c c3 fn E1 E2 E3 nu12 nu23 nu13 G12 G23 G13 ∧
-    stiff_TRI_U_PIPE_r3_4 c c3 fn E1 E2 E3 nu12 nu23 nu13 G12 G23 G13 = stiff_TRI_U_DEFAULT_r3_4 c c3 fn E1 E2 E3 nu12 nu23 nu13 G12 G23 G13 ∧
-    stiff_TRI_U_PIPE_r3_5 c c3 fn E1 E2 E3 nu12 nu23 nu13 G12 G23 G13 = stiff_TRI_U_DEFAULT_r3_5 c c3 fn E1 E2 E3 nu12 nu23 nu13 G12 G23 G13 ∧
-    stiff_TRI_U_PIPE_r4_0 c c3 fn E1 E2 E3 nu12 nu23 nu13 G12 G23 G13 = stiff_TRI_U_DEFAULT_r4_0 c c3 fn E1 E2 E3 nu12 nu23 nu13 G12 G23 G13 ∧
-    stiff_TRI_U_PIPE_r4_1 c c3 fn E1 E2 E3 nu12 nu23 nu13 G12 G23 G13 = stiff_TRI_U_DEFAULT_r4_1 c c3 fn E1 E2 E3 nu12 nu23 nu13 G12 G23 G13 ∧
-    stiff_TRI_U_PIPE_r4_2 c c3 fn E1 E2 E3 nu12 nu23 nu13 G12 G23 G13 = stiff_TRI_U_DEFAULT_r4_2 c c3 fn E1 E2 E3 nu12 nu23 nu13 G12 G23 G13 ∧
-    stiff_TRI_U_PIPE_r4_3 c c3 fn E1 E2 E3 nu12 nu23 nu13 G12 G23 G13 = stiff_TRI_U_DEFAULT_r4_3 c c3 fn E1 E2 E3 nu12 nu23 nu13 G12 G23 G13 ∧
-    stiff_TRI_U_PIPE_r4_4 c c3 fn E1 E2 E3 nu12 nu23 nu13 G12 G23 G13 = stiff_TRI_U_DEFAULT_r4_4 c c3 fn E1 E2 E3 nu12 nu23 nu13 G12 G23 G13 ∧
-    stiff_TRI_U_PIPE_r4_5 c c3 fn E1 E2 E3 nu12 nu23 nu13 G12 G23 G13 = stiff_TRI_U_DEFAULT_r4_5 c c3 fn E1 E2 E3 nu12 nu23 nu13 G12 G23 G13 ∧
-    stiff_TRI_U_PIPE_r5_0 c c3 fn E1 E2 E3 nu12 nu23 nu13 G12 G23 G13 = stiff_TRI_U_DEFAULT_r5_0 c c3 fn E1 E2 E3 nu12 nu23 nu13 G12 G23 G13 ∧
-    stiff_TRI_U_PIPE_r5_1 c c3 fn E1 E2 E3 nu12 nu23 nu13 G12 G23 G13 = stiff_TRI_U_DEFAULT_r5_1 c c3 fn E1 E2 E3 nu12 nu23 nu13 G12 G23 G13 ∧
-    stiff_TRI_U_PIPE_r5_2 c c3 fn E1 E2 E3 nu12 nu23 nu13 G12 G23 G13 = stiff_TRI_U_DEFAULT_r5_2 c c3 fn E1 E2 E3 nu12 nu23 nu13 G12 G23 G13 ∧
-    stiff_TRI_U_PIPE_r5_3 c c3 fn E1 E2 E3 nu12 nu23 nu13 G12 G23 G13 = stiff_TRI_U_DEFAULT_r5_3 c c3 fn E1 E2 E3 nu12 nu23 nu13 G12 G23 G13 ∧
-    stiff_TRI_U_PIPE_r5_4 c c3 fn E1 E2 E3 nu12 nu23 nu13 G12 G23 G13 = stiff_TRI_U_DEFAULT_r5_4 c c3 fn E1 E2 E3 nu12 nu23 nu13 G12 G23 G13 ∧
-    stiff_TRI_U_PIPE_r5_5 c c3 fn E1 E2 E3 nu12 nu23 nu13 G12 G23 G13 = stiff_TRI_U_DEFAULT_r5_5 c c3 fn E1 E2 E3 nu12 nu23 nu13 G12 G23 G13 := by
-  axes_eq
-
-/-- Tridimensional, ALTERED (no alteration for this hypothesis), DEFAULT: component (i,j) = component (π i, π j) of the 3D stiffness tensor, π = [0, 1, 2, 3, 4, 5] -/
-theorem stiff_TRI_A_DEFAULT (E1 E2 E3 nu12 nu23 nu13 G12 G23 G13 : K) :
-    stiff_TRI_A_DEFAULT_r0_0 c c3 fn E1 E2 E3 nu12 nu23 nu13 G12 G23 G13 = stiff_TRI_U_DEFAULT_r0_0 c c3 fn E1 E2 E3 nu12 nu23 nu13 G12 G23 G13 ∧
-    stiff_TRI_A_DEFAULT_r0_1 c c3 fn E1 E2 E3 nu12 nu23 nu13 G12 G23 G13 = stiff_TRI_U_DEFAULT_r0_1 c c3 fn E1 E2 E3 nu12 nu23 nu13 G12 G23 G13 ∧
-    stiff_TRI_A_DEFAULT_r0_2 c c3 fn E1 E2 E3 nu12 nu23 nu13 G12 G23 G13 = stiff_TRI_U_DEFAULT_r0_2 c c3 fn E1 E2 E3 nu12 nu23 nu13 G12 G23 G13 ∧
-    stiff_TRI_A_DEFAULT_r0_3 c c3 fn E1 E2 E3 nu12 nu23 nu13 G12 G23 G13 = stiff_TRI_U_DEFAULT_r0_3 c c3 fn E1 E2 E3 nu12 nu23 nu13 G12 G23 G13 ∧
-    stiff_TRI_A_DEFAULT_r0_4 c c3 fn E1 E2 E3 nu12 nu23 nu13 G12 G23 G13 = stiff_TRI_U_DEFAULT_r0_4 c c3 fn E1 E2 E3 nu12 nu23 nu13 G12 G23 G13 ∧
-    stiff_TRI_A_DEFAULT_r0_5 c c3 fn E1 E2 E3 nu12 nu23 nu13 G12 G23 G13 = stiff_TRI_U_DEFAULT_r0_5 c c3 fn E1 E2 E3 nu12 nu23 nu13 G12 G23 G13 ∧
-    stiff_TRI_A_DEFAULT_r1_0 c c3 fn E1 E2 E3 nu12 nu23 nu13 G12 G23 G13 = stiff_TRI_U_DEFAULT_r1_0 c c3 fn E1 E2 E3 nu12 nu23 nu13 G12 G23 G13 ∧
-    stiff_TRI_A_DEFAULT_r1_1 c c3 fn E1 E2 E3 nu12 nu23 nu13 G12 G23 G13 = stiff_TRI_U_DEFAULT_r1_1 c c3 fn E1 E2 E3 nu12 nu23 nu13 G12 G23 G13 ∧
-    stiff_TRI_A_DEFAULT_r1_2 c c3 fn E1 E2 E3 nu12 nu23 nu13 G12 G23 G13 = stiff_TRI_U_DEFAULT_r1_2 c c3 fn E1 E2 E3 nu12 nu23 nu13 G12 G23 G13 ∧
-    stiff_TRI_A_DEFAULT_r1_3 c c3 fn E1 E2 E3 nu12 nu23 nu13 G12 G23 G13 = stiff_TRI_U_DEFAULT_r1_3 c c3 fn E1 E2 E3 nu12 nu23 nu13 G12 G23 G13 ∧
-    stiff_TRI_A_DEFAULT_r1_4 c c3 fn E1 E2 E3 nu12 nu23 nu13 G12 G23 G13 = stiff_TRI_U_DEFAULT_r1_4 c c3 fn E1 E2 E3 nu12 nu23 nu13 G12 G23 G13 ∧
-    stiff_TRI_A_DEFAULT_r1_5 c c3 fn E1 E2 E3 nu12 nu23 nu13 G12 G23 G13 = stiff_TRI_U_DEFAULT_r1_5 c c3 fn E1 E2 E3 nu12 nu23 nu13 G12 G23 G13 ∧
-    stiff_TRI_A_DEFAULT_r2_0 c c3 fn E1 E2 E3 nu12 nu23 nu13 G12 G23 G13 = stiff_TRI_U_DEFAULT_r2_0 c c3 fn E1 E2 E3 nu12 nu23 nu13 G12 G23 G13 ∧
-    stiff_TRI_A_DEFAULT_r2_1 c c3 fn E1 E2 E3 nu12 nu23 nu13 G12 G23 G13 = stiff_TRI_U_DEFAULT_r2_1 c c3 fn E1 E2 E3 nu12 nu23 nu13 G12 G23 G13 ∧
-    stiff_TRI_A_DEFAULT_r2_2 c c3 fn E1 E2 E3 nu12 nu23 nu13 G12 G23 G13 = stiff_TRI_U_DEFAULT_r2_2 c c3 fn E1 E2 E3 nu12 nu23 nu13 G12 G23 G13 ∧
-    stiff_TRI_A_DEFAULT_r2_3 c c3 fn E1 E2 E3 nu12 nu23 nu13 G12 G23 G13 = stiff_TRI_U_DEFAULT_r2_3 c c3 fn E1 E2 E3 nu12 nu23 nu13 G12 G23 G13 ∧
-    stiff_TRI_A_DEFAULT_r2_4 c c3 fn E1 E2 E3 nu12 nu23 nu13 G12 G23 G13 = stiff_TRI_U_DEFAULT_r2_4 c c3 fn E1 E2 E3 nu12 nu23 nu13 G12 G23 G13 ∧
-    stiff_TRI_A_DEFAULT_r2_5 c c3 fn E1 E2 E3 nu12 nu23 nu13 G12 G23 G13 = stiff_TRI_U_DEFAULT_r2_5 c c3 fn E1 E2 E3 nu12 nu23 nu13 G12 G23 G13 ∧
-    stiff_TRI_A_DEFAULT_r3_0 c c3 fn E1 E2 E3 nu12 nu23 nu13 G12 G23 G13 = stiff_TRI_U_DEFAULT_r3_0 c c3 fn E1 E2 E3 nu12 nu23 nu13 G12 G23 G13 ∧
-    stiff_TRI_A_DEFAULT_r3_1 c c3 fn E1 E2 E3 nu12 nu23 nu13 G12 G23 G13 = stiff_TRI_U_DEFAULT_r3_1 c c3 fn E1 E2 E3 nu12 nu23 nu13 G12 G23 G13 ∧
-    stiff_TRI_A_DEFAULT_r3_2 c c3 fn E1 E2 E3 nu12 nu23 nu13 G12 G23 G13 = stiff_TRI_U_DEFAULT_r3_2 c c3 fn E1 E2 E3 nu12 nu23 nu13 G12 G23 G13 ∧
-    stiff_TRI_A_DEFAULT_r3_3 c c3 fn E1 E2 E3 nu12 nu23 nu13 G12 G23 G13 = stiff_TRI_U_DEFAULT_r3_3 c c3 fn E1 E2 E3 nu12 nu23 nu13 G12 G23 G13 ∧
-    stiff_TRI_A_DEFAULT_r3_4 c c3 fn E1 E2 E3 nu12 nu23 nu13 G12 G23 G13 = stiff_TRI_U_DEFAULT_r3_4 c c3 fn E1 E2 E3 nu12 nu23 nu13 G12 G23 G13 ∧
-    stiff_TRI_A_DEFAULT_r3_5 c c3 fn E1 E2 E3 nu12 nu23 nu13 G12 G23 G13 = stiff_TRI_U_DEFAULT_r3_5 c c3 fn E1 E2 E3 nu12 nu23 nu13 G12 G23 G13 ∧
-    stiff_TRI_A_DEFAULT_r4_0 c c3 fn E1 E2 E3 nu12 nu23 nu13 G12 G23 G13 = stiff_TRI_U_DEFAULT_r4_0 c c3 fn E1 E2 E3 nu12 nu23 nu13 G12 G23 G13 ∧
-    stiff_TRI_A_DEFAULT_r4_1 c c3 fn E1 E2 E3 nu12 nu23 nu13 G12 G23 G13 = stiff_TRI_U_DEFAULT_r4_1 c c3 fn E1 E2 E3 nu12 nu23 nu13 G12 G23 G13 ∧
-    stiff_TRI_A_DEFAULT_r4_2 c c3 fn E1 E2 E3 nu12 nu23 nu13 G12 G23 G13 = stiff_TRI_U_DEFAULT_r4_2 c c3 fn E1 E2 E3 nu12 nu23 nu13 G12 G23 G13 ∧
-    stiff_TRI_A_DEFAULT_r4_3 c c3 fn E1 E2 E3 nu12 nu23 nu13 G12 G23 G13 = stiff_TRI_U_DEFAULT_r4_3 c c3 fn E1 E2 E3 nu12 nu23 nu13 G12 G23 G13 ∧
-    stiff_TRI_A_DEFAULT_r4_4 c c3 fn E1 E2 E3 nu12 nu23 nu13 G12 G23 G13 = stiff_TRI_U_DEFAULT_r4_4 c c3 fn E1 E2 E3 nu12 nu23 nu13 G12 G23 G13 ∧
-    stiff_TRI_A_DEFAULT_r4_5 c c3 fn E1 E2 E3 nu12 nu23 nu13 G12 G23 G13 = stiff_TRI_U_DEFAULT_r4_5 c c3 fn E1 E2 E3 nu12 nu23 nu13 G12 G23 G13 ∧
-    stiff_TRI_A_DEFAULT_r5_0 c c3 fn E1 E2 E3 nu12 nu23 nu13 G12 G23 G13 = stiff_TRI_U_DEFAULT_r5_0 c c3 fn E1 E2 E3 nu12 nu23 nu13 G12 G23 G13 ∧
-    stiff_TRI_A_DEFAULT_r5_1 c c3 fn E1 E2 E3 nu12 nu23 nu13 G12 G23 G13 = stiff_TRI_U_DEFAULT_r5_1 c c3 fn E1 E2 E3 nu12 nu23 nu13 G12 G23 G13 ∧
-    stiff_TRI_A_DEFAULT_r5_2 c c3 fn E1 E2 E3 nu12 nu23 nu13 G12 G23 G13 = stiff_TRI_U_DEFAULT_r5_2 c c3 fn E1 E2 E3 nu12 nu23 nu13 G12 G23 G13 ∧
-    stiff_TRI_A_DEFAULT_r5_3 c c3 fn E1 E2 E3 nu12 nu23 nu13 G12 G23 G13 = stiff_TRI_U_DEFAULT_r5_3 c c3 fn E1 E2 E3 nu12 nu23 nu13 G12 G23 G13 ∧
-    stiff_TRI_A_DEFAULT_r5_4 c c3 fn E1 E2 E3 nu12 nu23 nu13 G12 G23 G13 = stiff_TRI_U_DEFAULT_r5_4 c c3 fn E1 E2 E3 nu12 nu23 nu13 G12 G23 G13 ∧
-    stiff_TRI_A_DEFAULT_r5_5 c c3 fn E1 E2 E3 nu12 nu23 nu13 G12 G23 G13 = stiff_TRI_U_DEFAULT_r5_5 c c3 fn E1 E2 E3 nu12 nu23 nu13 G12 G23 G13 := by
-  axes_eq
-
-/-- Tridimensional, ALTERED (no alteration for this hypothesis), PIPE: component (i,j) = component (π i, π j) of the 3D stiffness tensor, π = [0, 1, 2, 3, 4, 5] -/
-theorem stiff_TRI_A_PIPE (E1 E2 E3 nu12 nu23 nu13 G12 G23 G13 : K) :
-    stiff_TRI_A_PIPE_r0_0 c c3 fn E1 E2 E3 nu12 nu23 nu13 G12 G23 G13 = stiff_TRI_U_DEFAULT_r0_0 c c3 fn E1 E2 E3 nu12 nu23 nu13 G12 G23 G13 ∧
-    stiff_TRI_A_PIPE_r0_1 c c3 fn E1 E2 E3 nu12 nu23 nu13 G12 G23 G13 = stiff_TRI_U_DEFAULT_r0_1 c c3 fn E1 E2 E3 nu12 nu23 nu13 G12 G23 G13 ∧
-    stiff_TRI_A_PIPE_r0_2 c c3 fn E1 E2 E3 nu12 nu23 nu13 G12 G23 G13 = stiff_TRI_U_DEFAULT_r0_2 c c3 fn E1 E2 E3 nu12 nu23 nu13 G12 G23 G13 ∧
-    stiff_TRI_A_PIPE_r0_3 c c3 fn E1 E2 E3 nu12 nu23 nu13 G12 G23 G13 = stiff_TRI_U_DEFAULT_r0_3 c c3 fn E1 E2 E3 nu12 nu23 nu13 G12 G23 G13 ∧
-    stiff_TRI_A_PIPE_r0_4 c c3 fn E1 E2 E3 nu12 nu23 nu13 G12 G23 G13 = stiff_TRI_U_DEFAULT_r0_4 c c3 fn E1 E2 E3 nu12 nu23 nu13 G12 G23 G13 ∧
-    stiff_TRI_A_PIPE_r0_5 c c3 fn E1 E2 E3 nu12 nu23 nu13 G12 G23 G13 = stiff_TRI_U_DEFAULT_r0_5 c c3 fn E1 E2 E3 nu12 nu23 nu13 G12 G23 G13 ∧
-    stiff_TRI_A_PIPE_r1_0 c c3 fn E1 E2 E3 nu12 nu23 nu13 G12 G23 G13 = stiff_TRI_U_DEFAULT_r1_0 c c3 fn E1 E2 E3 nu12 nu23 nu13 G12 G23 G13 ∧
-    stiff_TRI_A_PIPE_r1_1 c c3 fn E1 E2 E3 nu12 nu23 nu13 G12 G23 G13 = stiff_TRI_U_DEFAULT_r1_1 c c3 fn E1 E2 E3 nu12 nu23 nu13 G12 G23 G13 ∧
-    stiff_TRI_A_PIPE_r1_2 c c3 fn E1 E2 E3 nu12 nu23 nu13 G12 G23 G13 = stiff_TRI_U_DEFAULT_r1_2 c c3 fn E1 E2 E3 nu12 nu23 nu13 G12 G23 G13 ∧
-    stiff_TRI_A_PIPE_r1_3 c c3 fn E1 E2 E3 nu12 nu23 nu13 G12 G23 G13 = stiff_TRI_U_DEFAULT_r1_3 c c3 fn E1 E2 E3 nu12 nu23 nu13 G12 G23 G13 ∧
-    stiff_TRI_A_PIPE_r1_4 c c3 fn E1 E2 E3 nu12 nu23 nu13 G12 G23 G13 = stiff_TRI_U_DEFAULT_r1_4 c c3 fn E1 E2 E3 nu12 nu23 nu13 G12 G23 G13 ∧
-    stiff_TRI_A_PIPE_r1_5 c c3 fn E1 E2 E3 nu12 nu23 nu13 G12 G23 G13 = stiff_TRI_U_DEFAULT_r1_5 c c3 fn E1 E2 E3 nu12 nu23 nu13 G12 G23 G13 ∧
-    stiff_TRI_A_PIPE_r2_0 c c3 fn E1 E2 E3 nu12 nu23 nu13 G12 G23 G13 = stiff_TRI_U_DEFAULT_r2_0 c c3 fn E1 E2 E3 nu12 nu23 nu13 G12 G23 G13 ∧
-    stiff_TRI_A_PIPE_r2_1 c c3 fn E1 E2 E3 nu12 nu23 nu13 G12 G23 G13 = stiff_TRI_U_DEFAULT_r2_1 c c3 fn E1 E2 E3 nu12 nu23 nu13 G12 G23 G13 ∧
-    stiff_TRI_A_PIPE_r2_2 c c3 fn E1 E2 E3 nu12 nu23 nu13 G12 G23 G13 = stiff_TRI_U_DEFAULT_r2_2 c c3 fn E1 E2 E3 nu12 nu23 nu13 G12 G23 G13 ∧
-    stiff_TRI_A_PIPE_r2_3 c c3 fn E1 E2 E3 nu12 nu23 nu13 G12 G23 G13 = stiff_TRI_U_DEFAULT_r2_3 c c3 fn E1 E2 E3 nu12 nu23 nu13 G12 G23 G13 ∧
-    stiff_TRI_A_PIPE_r2_4 c c3 fn E1 E2 E3 nu12 nu23 nu13 G12 G23 G13 = stiff_TRI_U_DEFAULT_r2_4 c c3 fn E1 E2 E3 nu12 nu23 nu13 G12 G23 G13 ∧
-    stiff_TRI_A_PIPE_r2_5 c c3 fn E1 E2 E3 nu12 nu23 nu13 G12 G23 G13 = stiff_TRI_U_DEFAULT_r2_5 c c3 fn E1 E2 E3 nu12 nu23 nu13 G12 G23 G13 ∧
-    stiff_TRI_A_PIPE_r3_0 c c3 fn E1 E2 E3 nu12 nu23 nu13 G12 G23 G13 = stiff_TRI_U_DEFAULT_r3_0 c c3 fn E1 E2 E3 nu12 nu23 nu13 G12 G23 G13 ∧
-    stiff_TRI_A_PIPE_r3_1 c c3 fn E1 E2 E3 nu12 nu23 nu13 G12 G23 G13 = stiff_TRI_U_DEFAULT_r3_1 c c3 fn E1 E2 E3 nu12 nu23 nu13 G12 G23 G13 ∧
-    stiff_TRI_A_PIPE_r3_2 c c3 fn E1 E2 E3 nu12 nu23 nu13 G12 G23 G13 = stiff_TRI_U_DEFAULT_r3_2 c c3 fn E1 E2 E3 nu12 nu23 nu13 G12 G23 G13 ∧
-    stiff_TRI_A_PIPE_r3_3 c c3 fn E1 E2 E3 nu12 nu23 nu13 G12 G23 G13 = stiff_TRI_U_DEFAULT_r3_3 c c3 fn E1 E2 E3 nu12 nu23 nu13 G12 G23 G13 ∧
-    stiff_TRI_A_PIPE_r3_4 c c3 fn E1 E2 E3 nu12 nu23 nu13 G12 G23 G13 = stiff_TRI_U_DEFAULT_r3_4 c c3 fn E1 E2 E3 nu12 nu23 nu13 G12 G23 G13 ∧
-    stiff_TRI_A_PIPE_r3_5 c c3 fn E1 E2 E3 nu12 nu23 nu13 G12 G23 G13 = stiff_TRI_U_DEFAULT_r3_5 c c3 fn E1 E2 E3 nu12 nu23 nu13 G12 G23 G13 ∧
-    stiff_TRI_A_PIPE_r4_0 c c3 fn E1 E2 E3 nu12 nu23 nu13 G12 G23 G13 = stiff_TRI_U_DEFAULT_r4_0 c c3 fn E1 E2 E3 nu12 nu23 nu13 G12 G23 G13 ∧
-    stiff_TRI_A_PIPE_r4_1 c c3 fn E1 E2 E3 nu12 nu23 nu13 G12 G23 G13 = stiff_TRI_U_DEFAULT_r4_1 c c3 fn E1 E2 E3 nu12 nu23 nu13 G12 G23 G13 ∧
-    stiff_TRI_A_PIPE_r4_2 c c3 fn E1 E2 E3 nu12 nu23 nu13 G12 G23 G13 = stiff_TRI_U_DEFAULT_r4_2 c c3 fn E1 E2 E3 nu12 nu23 nu13 G12 G23 G13 ∧
-    stiff_TRI_A_PIPE_r4_3 c c3 fn E1 E2 E3 nu12 nu23 nu13 G12 G23 G13 = stiff_TRI_U_DEFAULT_r4_3 c c3 fn E1 E2 E3 nu12 nu23 nu13 G12 G23 G13 ∧
-    stiff_TRI_A_PIPE_r4_4 c c3 fn E1 E2 E3 nu12 nu23 nu13 G12 G23 G13 = stiff_TRI_U_DEFAULT_r4_4 c c3 fn E1 E2 E3 nu12 nu23 nu13 G12 G23 G13 ∧
-    stiff_TRI_A_PIPE_r4_5 c c3 fn E1 E2 E3 nu12 nu23 nu13 G12 G23 G13 = stiff_TRI_U_DEFAULT_r4_5 c c3 fn E1 E2 E3 nu12 nu23 nu13 G12 G23 G13 ∧
-    stiff_TRI_A_PIPE_r5_0 c c3 fn E1 E2 E3 nu12 nu23 nu13 G12 G23 G13 = stiff_TRI_U_DEFAULT_r5_0 c c3 fn E1 E2 E3 nu12 nu23 nu13 G12 G23 G13 ∧
-    stiff_TRI_A_PIPE_r5_1 c c3 fn E1 E2 E3 nu12 nu23 nu13 G12 G23 G13 = stiff_TRI_U_DEFAULT_r5_1 c c3 fn E1 E2 E3 nu12 nu23 nu13 G12 G23 G13 ∧
-    stiff_TRI_A_PIPE_r5_2 c c3 fn E1 E2 E3 nu12 nu23 nu13 G12 G23 G13 = stiff_TRI_U_DEFAULT_r5_2 c c3 fn E1 E2 E3 nu12 nu23 nu13 G12 G23 G13 ∧
-    stiff_TRI_A_PIPE_r5_3 c c3 fn E1 E2 E3 nu12 nu23 nu13 G12 G23 G13 = stiff_TRI_U_DEFAULT_r5_3 c c3 fn E1 E2 E3 nu12 nu23 nu13 G12 G23 G13 ∧
-    stiff_TRI_A_PIPE_r5_4 c c3 fn E1 E2 E3 nu12 nu23 nu13 G12 G23 G13 = stiff_TRI_U_DEFAULT_r5_4 c c3 fn E1 E2 E3 nu12 nu23 nu13 G12 G23 G13 ∧
-    stiff_TRI_A_PIPE_r5_5 c c3 fn E1 E2 E3 nu12 nu23 nu13 G12 G23 G13 = stiff_TRI_U_DEFAULT_r5_5 c c3 fn E1 E2 E3 nu12 nu23 nu13 G12 G23 G13 := by
-  axes_eq
-
-/-! ## orthotropic plasticity helpers: the 1D / 2D overloads are the 3D ones with vanishing out-of-plane shear -/
-
-theorem j2o_N1_is_3D (s0 s1 s2 a1 a2 a3 a4 a5 a6 : K) :
-    j2o_N1_r c c3 fn s0 s1 s2 a1 a2 a3 a4 a5 a6 = j2o_N3_r c c3 fn s0 s1 s2 0 0 0 a1 a2 a3 a4 a5 a6 := by
-  axes_eq
-
-/-- first derivative: same in-plane components, and the 3D out-of-plane components vanish -/
-theorem j2o_d_N1_is_3D (s0 s1 s2 a1 a2 a3 a4 a5 a6 : K) :
-    j2o_d_N1_r0 c c3 fn s0 s1 s2 a1 a2 a3 a4 a5 a6 = j2o_d_N3_r0 c c3 fn s0 s1 s2 0 0 0 a1 a2 a3 a4 a5 a6 ∧
-    j2o_d_N1_r1 c c3 fn s0 s1 s2 a1 a2 a3 a4 a5 a6 = j2o_d_N3_r1 c c3 fn s0 s1 s2 0 0 0 a1 a2 a3 a4 a5 a6 ∧
-    j2o_d_N1_r2 c c3 fn s0 s1 s2 a1 a2 a3 a4 a5 a6 = j2o_d_N3_r2 c c3 fn s0 s1 s2 0 0 0 a1 a2 a3 a4 a5 a6 ∧
-    j2o_d_N3_r3 c c3 fn s0 s1 s2 0 0 0 a1 a2 a3 a4 a5 a6 = 0 ∧
-    j2o_d_N3_r4 c c3 fn s0 s1 s2 0 0 0 a1 a2 a3 a4 a5 a6 = 0 ∧
-    j2o_d_N3_r5 c c3 fn s0 s1 s2 0 0 0 a1 a2 a3 a4 a5 a6 = 0 := by
-  axes_eq
-
-theorem j2o_d2_N1_is_3D (s0 s1 s2 a1 a2 a3 a4 a5 a6 : K) :
-    j2o_d2_N1_r0_0 c c3 fn s0 s1 s2 a1 a2 a3 a4 a5 a6 = j2o_d2_N3_r0_0 c c3 fn s0 s1 s2 0 0 0 a1 a2 a3 a4 a5 a6 ∧
-    j2o_d2_N1_r0_1 c c3 fn s0 s1 s2 a1 a2 a3 a4 a5 a6 = j2o_d2_N3_r0_1 c c3 fn s0 s1 s2 0 0 0 a1 a2 a3 a4 a5 a6 ∧
-    j2o_d2_N1_r0_2 c c3 fn s0 s1 s2 a1 a2 a3 a4 a5 a6 = j2o_d2_N3_r0_2 c c3 fn s0 s1 s2 0 0 0 a1 a2 a3 a4 a5 a6 ∧
-    j2o_d2_N1_r1_0 c c3 fn s0 s1 s2 a1 a2 a3 a4 a5 a6 = j2o_d2_N3_r1_0 c c3 fn s0 s1 s2 0 0 0 a1 a2 a3 a4 a5 a6 ∧
-    j2o_d2_N1_r1_1 c c3 fn s0 s1 s2 a1 a2 a3 a4 a5 a6 = j2o_d2_N3_r1_1 c c3 fn s0 s1 s2 0 0 0 a1 a2 a3 a4 a5 a6 ∧
-    j2o_d2_N1_r1_2 c c3 fn s0 s1 s2 a1 a2 a3 a4 a5 a6 = j2o_d2_N3_r1_2 c c3 fn s0 s1 s2 0 0 0 a1 a2 a3 a4 a5 a6 ∧
-    j2o_d2_N1_r2_0 c c3 fn s0 s1 s2 a1 a2 a3 a4 a5 a6 = j2o_d2_N3_r2_0 c c3 fn s0 s1 s2 0 0 0 a1 a2 a3 a4 a5 a6 ∧
-    j2o_d2_N1_r2_1 c c3 fn s0 s1 s2 a1 a2 a3 a4 a5 a6 = j2o_d2_N3_r2_1 c c3 fn s0 s1 s2 0 0 0 a1 a2 a3 a4 a5 a6 ∧
-    j2o_d2_N1_r2_2 c c3 fn s0 s1 s2 a1 a2 a3 a4 a5 a6 = j2o_d2_N3_r2_2 c c3 fn s0 s1 s2 0 0 0 a1 a2 a3 a4 a5 a6 := by
-  axes_eq
-
-theorem j2o_N2_is_3D (s0 s1 s2 s3 a1 a2 a3 a4 a5 a6 : K) :
-    j2o_N2_r c c3 fn s0 s1 s2 s3 a1 a2 a3 a4 a5 a6 = j2o_N3_r c c3 fn s0 s1 s2 s3 0 0 a1 a2 a3 a4 a5 a6 := by
-  axes_eq
-
-/-- first derivative: same in-plane components, and the 3D out-of-plane components vanish -/
-theorem j2o_d_N2_is_3D (s0 s1 s2 s3 a1 a2 a3 a4 a5 a6 : K) :
-    j2o_d_N2_r0 c c3 fn s0 s1 s2 s3 a1 a2 a3 a4 a5 a6 = j2o_d_N3_r0 c c3 fn s0 s1 s2 s3 0 0 a1 a2 a3 a4 a5 a6 ∧
-    j2o_d_N2_r1 c c3 fn s0 s1 s2 s3 a1 a2 a3 a4 a5 a6 = j2o_d_N3_r1 c c3 fn s0 s1 s2 s3 0 0 a1 a2 a3 a4 a5 a6 ∧
-    j2o_d_N2_r2 c c3 fn s0 s1 s2 s3 a1 a2 a3 a4 a5 a6 = j2o_d_N3_r2 c c3 fn s0 s1 s2 s3 0 0 a1 a2 a3 a4 a5 a6 ∧
-    j2o_d_N2_r3 c c3 fn s0 s1 s2 s3 a1 a2 a3 a4 a5 a6 = j2o_d_N3_r3 c c3 fn s0 s1 s2 s3 0 0 a1 a2 a3 a4 a5 a6 ∧
-    j2o_d_N3_r4 c c3 fn s0 s1 s2 s3 0 0 a1 a2 a3 a4 a5 a6 = 0 ∧
-    j2o_d_N3_r5 c c3 fn s0 s1 s2 s3 0 0 a1 a2 a3 a4 a5 a6 = 0 := by
-  axes_eq
-
-theorem j2o_d2_N2_is_3D (s0 s1 s2 s3 a1 a2 a3 a4 a5 a6 : K) :
-    j2o_d2_N2_r0_0 c c3 fn s0 s1 s2 s3 a1 a2 a3 a4 a5 a6 = j2o_d2_N3_r0_0 c c3 fn s0 s1 s2 s3 0 0 a1 a2 a3 a4 a5 a6 ∧
-    j2o_d2_N2_r0_1 c c3 fn s0 s1 s2 s3 a1 a2 a3 a4 a5 a6 = j2o_d2_N3_r0_1 c c3 fn s0 s1 s2 s3 0 0 a1 a2 a3 a4 a5 a6 ∧
-    j2o_d2_N2_r0_2 c c3 fn s0 s1 s2 s3 a1 a2 a3 a4 a5 a6 = j2o_d2_N3_r0_2 c c3 fn s0 s1 s2 s3 0 0 a1 a2 a3 a4 a5 a6 ∧
-    j2o_d2_N2_r0_3 c c3 fn s0 s1 s2 s3 a1 a2 a3 a4 a5 a6 = j2o_d2_N3_r0_3 c c3 fn s0 s1 s2 s3 0 0 a1 a2 a3 a4 a5 a6 ∧
-    j2o_d2_N2_r1_0 c c3 fn s0 s1 s2 s3 a1 a2 a3 a4 a5 a6 = j2o_d2_N3_r1_0 c c3 fn s0 s1 s2 s3 0 0 a1 a2 a3 a4 a5 a6 ∧
-    j2o_d2_N2_r1_1 c c3 fn s0 s1 s2 s3 a1 a2 a3 a4 a5 a6 = j2o_d2_N3_r1_1 c c3 fn s0 s1 s2 s3 0 0 a1 a2 a3 a4 a5 a6 ∧
-    j2o_d2_N2_r1_2 c c3 fn s0 s1 s2 s3 a1 a2 a3 a4 a5 a6 = j2o_d2_N3_r1_2 c c3 fn s0 s1 s2 s3 0 0 a1 a2 a3 a4 a5 a6 ∧
-    j2o_d2_N2_r1_3 c c3 fn s0 s1 s2 s3 a1 a2 a3 a4 a5 a6 = j2o_d2_N3_r1_3 c c3 fn s0 s1 s2 s3 0 0 a1 a2 a3 a4 a5 a6 ∧
-    j2o_d2_N2_r2_0 c c3 fn s0 s1 s2 s3 a1 a2 a3 a4 a5 a6 = j2o_d2_N3_r2_0 c c3 fn s0 s1 s2 s3 0 0 a1 a2 a3 a4 a5 a6 ∧
-    j2o_d2_N2_r2_1 c c3 fn s0 s1 s2 s3 a1 a2 a3 a4 a5 a6 = j2o_d2_N3_r2_1 c c3 fn s0 s1 s2 s3 0 0 a1 a2 a3 a4 a5 a6 ∧
-    j2o_d2_N2_r2_2 c c3 fn s0 s1 s2 s3 a1 a2 a3 a4 a5 a6 = j2o_d2_N3_r2_2 c c3 fn s0 s1 s2 s3 0 0 a1 a2 a3 a4 a5 a6 ∧
-    j2o_d2_N2_r2_3 c c3 fn s0 s1 s2 s3 a1 a2 a3 a4 a5 a6 = j2o_d2_N3_r2_3 c c3 fn s0 s1 s2 s3 0 0 a1 a2 a3 a4 a5 a6 ∧
-    j2o_d2_N2_r3_0 c c3 fn s0 s1 s2 s3 a1 a2 a3 a4 a5 a6 = j2o_d2_N3_r3_0 c c3 fn s0 s1 s2 s3 0 0 a1 a2 a3 a4 a5 a6 ∧
-    j2o_d2_N2_r3_1 c c3 fn s0 s1 s2 s3 a1 a2 a3 a4 a5 a6 = j2o_d2_N3_r3_1 c c3 fn s0 s1 s2 s3 0 0 a1 a2 a3 a4 a5 a6 ∧
-    j2o_d2_N2_r3_2 c c3 fn s0 s1 s2 s3 a1 a2 a3 a4 a5 a6 = j2o_d2_N3_r3_2 c c3 fn s0 s1 s2 s3 0 0 a1 a2 a3 a4 a5 a6 ∧
-    j2o_d2_N2_r3_3 c c3 fn s0 s1 s2 s3 a1 a2 a3 a4 a5 a6 = j2o_d2_N3_r3_3 c c3 fn s0 s1 s2 s3 0 0 a1 a2 a3 a4 a5 a6 := by
-  axes_eq
-
-theorem j3o_N1_is_3D (s0 s1 s2 b1 b2 b3 b4 b5 b6 b7 b8 b9 b10 b11 : K) :
-    j3o_N1_r c c3 fn s0 s1 s2 b1 b2 b3 b4 b5 b6 b7 b8 b9 b10 b11 = j3o_N3_r c c3 fn s0 s1 s2 0 0 0 b1 b2 b3 b4 b5 b6 b7 b8 b9 b10 b11 := by
-  axes_eq
-
-/-- first derivative: same in-plane components, and the 3D out-of-plane components vanish -/
-theorem j3o_d_N1_is_3D (s0 s1 s2 b1 b2 b3 b4 b5 b6 b7 b8 b9 b10 b11 : K) :
-    j3o_d_N1_r0 c c3 fn s0 s1 s2 b1 b2 b3 b4 b5 b6 b7 b8 b9 b10 b11 = j3o_d_N3_r0 c c3 fn s0 s1 s2 0 0 0 b1 b2 b3 b4 b5 b6 b7 b8 b9 b10 b11 ∧
-    j3o_d_N1_r1 c c3 fn s0 s1 s2 b1 b2 b3 b4 b5 b6 b7 b8 b9 b10 b11 = j3o_d_N3_r1 c c3 fn s0 s1 s2 0 0 0 b1 b2 b3 b4 b5 b6 b7 b8 b9 b10 b11 ∧
-    j3o_d_N1_r2 c c3 fn s0 s1 s2 b1 b2 b3 b4 b5 b6 b7 b8 b9 b10 b11 = j3o_d_N3_r2 c c3 fn s0 s1 s2 0 0 0 b1 b2 b3 b4 b5 b6 b7 b8 b9 b10 b11 ∧
-    j3o_d_N3_r3 c c3 fn s0 s1 s2 0 0 0 b1 b2 b3 b4 b5 b6 b7 b8 b9 b10 b11 = 0 ∧
-    j3o_d_N3_r4 c c3 fn s0 s1 s2 0 0 0 b1 b2 b3 b4 b5 b6 b7 b8 b9 b10 b11 = 0 ∧
-    j3o_d_N3_r5 c c3 fn s0 s1 s2 0 0 0 b1 b2 b3 b4 b5 b6 b7 b8 b9 b10 b11 = 0 := by
-  axes_eq
-
-theorem j3o_d2_N1_is_3D (s0 s1 s2 b1 b2 b3 b4 b5 b6 b7 b8 b9 b10 b11 : K) :
-    j3o_d2_N1_r0_0 c c3 fn s0 s1 s2 b1 b2 b3 b4 b5 b6 b7 b8 b9 b10 b11 = j3o_d2_N3_r0_0 c c3 fn s0 s1 s2 0 0 0 b1 b2 b3 b4 b5 b6 b7 b8 b9 b10 b11 ∧
-    j3o_d2_N1_r0_1 c c3 fn s0 s1 s2 b1 b2 b3 b4 b5 b6 b7 b8 b9 b10 b11 = j3o_d2_N3_r0_1 c c3 fn s0 s1 s2 0 0 0 b1 b2 b3 b4 b5 b6 b7 b8 b9 b10 b11 ∧
-    j3o_d2_N1_r0_2 c c3 fn s0 s1 s2 b1 b2 b3 b4 b5 b6 b7 b8 b9 b10 b11 = j3o_d2_N3_r0_2 c c3 fn s0 s1 s2 0 0 0 b1 b2 b3 b4 b5 b6 b7 b8 b9 b10 b11 ∧
-    j3o_d2_N1_r1_0 c c3 fn s0 s1 s2 b1 b2 b3 b4 b5 b6 b7 b8 b9 b10 b11 = j3o_d2_N3_r1_0 c c3 fn s0 s1 s2 0 0 0 b1 b2 b3 b4 b5 b6 b7 b8 b9 b10 b11 ∧
-    j3o_d2_N1_r1_1 c c3 fn s0 s1 s2 b1 b2 b3 b4 b5 b6 b7 b8 b9 b10 b11 = j3o_d2_N3_r1_1 c c3 fn s0 s1 s2 0 0 0 b1 b2 b3 b4 b5 b6 b7 b8 b9 b10 b11 ∧
-    j3o_d2_N1_r1_2 c c3 fn s0 s1 s2 b1 b2 b3 b4 b5 b6 b7 b8 b9 b10 b11 = j3o_d2_N3_r1_2 c c3 fn s0 s1 s2 0 0 0 b1 b2 b3 b4 b5 b6 b7 b8 b9 b10 b11 ∧
-    j3o_d2_N1_r2_0 c c3 fn s0 s1 s2 b1 b2 b3 b4 b5 b6 b7 b8 b9 b10 b11 = j3o_d2_N3_r2_0 c c3 fn s0 s1 s2 0 0 0 b1 b2 b3 b4 b5 b6 b7 b8 b9 b10 b11 ∧
-    j3o_d2_N1_r2_1 c c3 fn s0 s1 s2 b1 b2 b3 b4 b5 b6 b7 b8 b9 b10 b11 = j3o_d2_N3_r2_1 c c3 fn s0 s1 s2 0 0 0 b1 b2 b3 b4 b5 b6 b7 b8 b9 b10 b11 ∧
-    j3o_d2_N1_r2_2 c c3 fn s0 s1 s2 b1 b2 b3 b4 b5 b6 b7 b8 b9 b10 b11 = j3o_d2_N3_r2_2 c c3 fn s0 s1 s2 0 0 0 b1 b2 b3 b4 b5 b6 b7 b8 b9 b10 b11 := by
-  axes_eq
-
-theorem j3o_N2_is_3D (s0 s1 s2 s3 b1 b2 b3 b4 b5 b6 b7 b8 b9 b10 b11 : K) :
-    j3o_N2_r c c3 fn s0 s1 s2 s3 b1 b2 b3 b4 b5 b6 b7 b8 b9 b10 b11 = j3o_N3_r c c3 fn s0 s1 s2 s3 0 0 b1 b2 b3 b4 b5 b6 b7 b8 b9 b10 b11 := by
-  axes_eq
-
-/-- first derivative: same in-plane components, and the 3D out-of-plane components vanish -/
-theorem j3o_d_N2_is_3D (s0 s1 s2 s3 b1 b2 b3 b4 b5 b6 b7 b8 b9 b10 b11 : K) :
-    j3o_d_N2_r0 c c3 fn s0 s1 s2 s3 b1 b2 b3 b4 b5 b6 b7 b8 b9 b10 b11 = j3o_d_N3_r0 c c3 fn s0 s1 s2 s3 0 0 b1 b2 b3 b4 b5 b6 b7 b8 b9 b10 b11 ∧
-    j3o_d_N2_r1 c c3 fn s0 s1 s2 s3 b1 b2 b3 b4 b5 b6 b7 b8 b9 b10 b11 = j3o_d_N3_r1 c c3 fn s0 s1 s2 s3 0 0 b1 b2 b3 b4 b5 b6 b7 b8 b9 b10 b11 ∧
-    j3o_d_N2_r2 c c3 fn s0 s1 s2 s3 b1 b2 b3 b4 b5 b6 b7 b8 b9 b10 b11 = j3o_d_N3_r2 c c3 fn s0 s1 s2 s3 0 0 b1 b2 b3 b4 b5 b6 b7 b8 b9 b10 b11 ∧
-    j3o_d_N2_r3 c c3 fn s0 s1 s2 s3 b1 b2 b3 b4 b5 b6 b7 b8 b9 b10 b11 = j3o_d_N3_r3 c c3 fn s0 s1 s2 s3 0 0 b1 b2 b3 b4 b5 b6 b7 b8 b9 b10 b11 ∧
-    j3o_d_N3_r4 c c3 fn s0 s1 s2 s3 0 0 b1 b2 b3 b4 b5 b6 b7 b8 b9 b10 b11 = 0 ∧
-    j3o_d_N3_r5 c c3 fn s0 s1 s2 s3 0 0 b1 b2 b3 b4 b5 b6 b7 b8 b9 b10 b11 = 0 := by
-  axes_eq
-
-theorem j3o_d2_N2_is_3D (s0 s1 s2 s3 b1 b2 b3 b4 b5 b6 b7 b8 b9 b10 b11 : K) :
-    j3o_d2_N2_r0_0 c c3 fn s0 s1 s2 s3 b1 b2 b3 b4 b5 b6 b7 b8 b9 b10 b11 = j3o_d2_N3_r0_0 c c3 fn s0 s1 s2 s3 0 0 b1 b2 b3 b4 b5 b6 b7 b8 b9 b10 b11 ∧
-    j3o_d2_N2_r0_1 c c3 fn s0 s1 s2 s3 b1 b2 b3 b4 b5 b6 b7 b8 b9 b10 b11 = j3o_d2_N3_r0_1 c c3 fn s0 s1 s2 s3 0 0 b1 b2 b3 b4 b5 b6 b7 b8 b9 b10 b11 ∧
-    j3o_d2_N2_r0_2 c c3 fn s0 s1 s2 s3 b1 b2 b3 b4 b5 b6 b7 b8 b9 b10 b11 = j3o_d2_N3_r0_2 c c3 fn s0 s1 s2 s3 0 0 b1 b2 b3 b4 b5 b6 b7 b8 b9 b10 b11 ∧
-    j3o_d2_N2_r0_3 c c3 fn s0 s1 s2 s3 b1 b2 b3 b4 b5 b6 b7 b8 b9 b10 b11 = j3o_d2_N3_r0_3 c c3 fn s0 s1 s2 s3 0 0 b1 b2 b3 b4 b5 b6 b7 b8 b9 b10 b11 ∧
-    j3o_d2_N2_r1_0 c c3 fn s0 s1 s2 s3 b1 b2 b3 b4 b5 b6 b7 b8 b9 b10 b11 = j3o_d2_N3_r1_0 c c3 fn s0 s1 s2 s3 0 0 b1 b2 b3 b4 b5 b6 b7 b8 b9 b10 b11 ∧
-    j3o_d2_N2_r1_1 c c3 fn s0 s1 s2 s3 b1 b2 b3 b4 b5 b6 b7 b8 b9 b10 b11 = j3o_d2_N3_r1_1 c c3 fn s0 s1 s2 s3 0 0 b1 b2 b3 b4 b5 b6 b7 b8 b9 b10 b11 ∧
-    j3o_d2_N2_r1_2 c c3 fn s0 s1 s2 s3 b1 b2 b3 b4 b5 b6 b7 b8 b9 b10 b11 = j3o_d2_N3_r1_2 c c3 fn s0 s1 s2 s3 0 0 b1 b2 b3 b4 b5 b6 b7 b8 b9 b10 b11 ∧
-    j3o_d2_N2_r1_3 c c3 fn s0 s1 s2 s3 b1 b2 b3 b4 b5 b6 b7 b8 b9 b10 b11 = j3o_d2_N3_r1_3 c c3 fn s0 s1 s2 s3 0 0 b1 b2 b3 b4 b5 b6 b7 b8 b9 b10 b11 ∧
-    j3o_d2_N2_r2_0 c c3 fn s0 s1 s2 s3 b1 b2 b3 b4 b5 b6 b7 b8 b9 b10 b11 = j3o_d2_N3_r2_0 c c3 fn s0 s1 s2 s3 0 0 b1 b2 b3 b4 b5 b6 b7 b8 b9 b10 b11 ∧
-    j3o_d2_N2_r2_1 c c3 fn s0 s1 s2 s3 b1 b2 b3 b4 b5 b6 b7 b8 b9 b10 b11 = j3o_d2_N3_r2_1 c c3 fn s0 s1 s2 s3 0 0 b1 b2 b3 b4 b5 b6 b7 b8 b9 b10 b11 ∧
-    j3o_d2_N2_r2_2 c c3 fn s0 s1 s2 s3 b1 b2 b3 b4 b5 b6 b7 b8 b9 b10 b11 = j3o_d2_N3_r2_2 c c3 fn s0 s1 s2 s3 0 0 b1 b2 b3 b4 b5 b6 b7 b8 b9 b10 b11 ∧
-    j3o_d2_N2_r2_3 c c3 fn s0 s1 s2 s3 b1 b2 b3 b4 b5 b6 b7 b8 b9 b10 b11 = j3o_d2_N3_r2_3 c c3 fn s0 s1 s2 s3 0 0 b1 b2 b3 b4 b5 b6 b7 b8 b9 b10 b11 ∧
-    j3o_d2_N2_r3_0 c c3 fn s0 s1 s2 s3 b1 b2 b3 b4 b5 b6 b7 b8 b9 b10 b11 = j3o_d2_N3_r3_0 c c3 fn s0 s1 s2 s3 0 0 b1 b2 b3 b4 b5 b6 b7 b8 b9 b10 b11 ∧
-    j3o_d2_N2_r3_1 c c3 fn s0 s1 s2 s3 b1 b2 b3 b4 b5 b6 b7 b8 b9 b10 b11 = j3o_d2_N3_r3_1 c c3 fn s0 s1 s2 s3 0 0 b1 b2 b3 b4 b5 b6 b7 b8 b9 b10 b11 ∧
-    j3o_d2_N2_r3_2 c c3 fn s0 s1 s2 s3 b1 b2 b3 b4 b5 b6 b7 b8 b9 b10 b11 = j3o_d2_N3_r3_2 c c3 fn s0 s1 s2 s3 0 0 b1 b2 b3 b4 b5 b6 b7 b8 b9 b10 b11 ∧
-    j3o_d2_N2_r3_3 c c3 fn s0 s1 s2 s3 b1 b2 b3 b4 b5 b6 b7 b8 b9 b10 b11 = j3o_d2_N3_r3_3 c c3 fn s0 s1 s2 s3 0 0 b1 b2 b3 b4 b5 b6 b7 b8 b9 b10 b11 := by
-  axes_eq
-
 end TfelVerif.C28.PropsAxes
